@@ -1,40 +1,36 @@
 package main
 
-// T1 facts for C17 (Lua half): pkg/extension/luahost/{lua.go,pool.go,bind_inbucket.go,bind_smtpresponse.go,bind_inboundmessage.go}
-// and pkg/extension/broker.go -> lean/Ibx/Gen/Lua.lean.
-//   * which Lua function name is wired to which event and which Go listener (wireFunctions + the __newindex switches)
-//   * per listener: the name passed to prepareInbucketFuncCall, the `if !ok` exit, the deferred putState right after it,
-//     the lua.P literal of CallByParam (Fn, NRet, Protect), what the error branch returns, how the return value is taken
-//     from the stack, the LVIsFalse test, the unwrap function, the final return
-//   * the two unwrap functions: the chain of type assertions and the failure result
-//   * the statement lists of getState / putState / createChannel / prepareInbucketFuncCall / Emit (normalised source)
-//   * the defaults of smtp.deny
+// T1 facts for C17 (Lua half): pkg/extension/luahost/*.go (all non-test, non-verif files) and pkg/extension/broker.go
+// -> lean/Ibx/Gen/Lua.lean.
+//
+// The facts describe STRUCTURE, not spelling.  Functions are run through a small symbolic path evaluator:
+//   * a function body is enumerated into its control-flow PATHS (if / else / switch / early return all give the same set),
+//   * calls to helpers of the same package are INLINED (so helper boundaries do not matter) unless the helper returns an
+//     `error` (then it is an opaque primitive named by its RESULT TYPES) or is a pure constructor-style helper,
+//   * local variables are replaced by their DEFINITIONS (`S` = the state obtained from the pool, `S.Get(-1)`, …),
+//     parameters by their position ($0, $1, $recv), unexported fields of the receiver by their declared type,
+//     unexported package functions by `fn-><result types>`, fresh error values by `<error>` (texts do not matter),
+//   * only effects that matter are kept: calls on a Lua state, pool primitives, sync (Lock/Unlock/…), calls of function
+//     values, stores to non-local places, calls of error-returning helpers.  Logging and other pure calls vanish.
+// The pool's methods are found by ROLE (the struct with a []*LState field; the method that appends its parameter to it,
+// the one that returns an element of it, the one that empties it, the one calling lua.NewState), listeners by being
+// passed to AddListener, the unwrap functions by their signature, the __index/__newindex tables by their shape.
+// A shape the evaluator does not understand yields a path with ret "?…", which no tie theorem accepts.
 
 import (
 	"fmt"
 	"go/ast"
 	"go/token"
-	"regexp"
+	"os"
+	"path/filepath"
+	"sort"
 	"strconv"
 	"strings"
 )
 
 func init() { extractors = append(extractors, extractLua) }
 
-var wsRE = regexp.MustCompile(`\s+`)
-
-func norm(n ast.Node) string { return strings.TrimSpace(wsRE.ReplaceAllString(src(n), " ")) }
-
-func stmtList(fd *ast.FuncDecl) []string {
-	res := []string{}
-	if fd == nil || fd.Body == nil {
-		return res
-	}
-	for _, s := range fd.Body.List {
-		res = append(res, norm(s))
-	}
-	return res
-}
+const luaDir = "pkg/extension/luahost"
 
 func luaLeanBool(b bool) string {
 	if b {
@@ -43,323 +39,2517 @@ func luaLeanBool(b bool) string {
 	return "false"
 }
 
-type luaHandlerFacts struct {
-	goName, luaName, fn, unwrap                                                       string
-	notOkReturns, deferPut, protect, errReturnsNil, getTopPop, lvIsFalse, returnsRes bool
-	nret                                                                              *int
-	gets, puts                                                                        int
+// ---------------------------------------------------------------------------------------------------------------------
+// package model
+
+type luaPkg struct {
+	files   []*ast.File
+	fileOf  map[*ast.FuncDecl]*ast.File
+	funcs   map[string]*ast.FuncDecl
+	meths   map[string][]*ast.FuncDecl
+	all     []*ast.FuncDecl
+	structs map[string]*ast.StructType
+	stFile  map[string]*ast.File
+	consts  map[string]*ast.BasicLit
+	poolT   string            // struct holding the free list
+	freeF   string            // its []*LState field
+	role    map[string]string // method name -> get / put / new / flush
 }
 
-func handlerFacts(fd *ast.FuncDecl) luaHandlerFacts {
-	f := luaHandlerFacts{goName: fd.Name.Name}
-	l := fd.Body.List
-	if len(l) >= 1 {
-		if as, ok := l[0].(*ast.AssignStmt); ok && len(as.Rhs) == 1 && len(as.Lhs) == 4 && norm(as.Lhs[1]) == "ls" && norm(as.Lhs[3]) == "ok" {
-			if ce, ok := as.Rhs[0].(*ast.CallExpr); ok && norm(ce.Fun) == "h.prepareInbucketFuncCall" && len(ce.Args) == 1 {
-				if lit, ok := ce.Args[0].(*ast.BasicLit); ok && lit.Kind == token.STRING {
-					f.luaName, _ = strconv.Unquote(lit.Value)
-				}
-			}
+func luaLoad(dir string, only ...string) *luaPkg {
+	pk := &luaPkg{fileOf: map[*ast.FuncDecl]*ast.File{}, funcs: map[string]*ast.FuncDecl{}, meths: map[string][]*ast.FuncDecl{},
+		structs: map[string]*ast.StructType{}, stFile: map[string]*ast.File{}, consts: map[string]*ast.BasicLit{}, role: map[string]string{}}
+	names := only
+	if len(names) == 0 {
+		ents, err := os.ReadDir(filepath.Join(repo, dir))
+		if err != nil {
+			fmt.Fprintln(os.Stderr, "lua: readdir", err)
+			return pk
 		}
-	}
-	if len(l) >= 2 {
-		s := norm(l[1])
-		f.notOkReturns = s == "if !ok { return nil }" || s == "if !ok { return }"
-	}
-	if len(l) >= 3 {
-		f.deferPut = norm(l[2]) == "defer h.pool.putState(ls)"
-	}
-	ast.Inspect(fd.Body, func(x ast.Node) bool {
-		switch v := x.(type) {
-		case *ast.CallExpr:
-			switch norm(v.Fun) {
-			case "h.pool.getState":
-				f.gets++
-			case "h.pool.putState":
-				f.puts++
+		for _, e := range ents {
+			n := e.Name()
+			if e.IsDir() || !strings.HasSuffix(n, ".go") || strings.HasSuffix(n, "_test.go") || strings.HasPrefix(n, "verif_") {
+				continue
 			}
-		case *ast.IfStmt:
-			if v.Init != nil {
-				if as, ok := v.Init.(*ast.AssignStmt); ok && len(as.Rhs) == 1 {
-					if ce, ok := as.Rhs[0].(*ast.CallExpr); ok && norm(ce.Fun) == "ls.CallByParam" && len(ce.Args) == 2 && norm(v.Cond) == "err != nil" {
-						if cl, ok := ce.Args[0].(*ast.CompositeLit); ok && norm(cl.Type) == "lua.P" {
-							for _, e := range cl.Elts {
-								if kv, ok := e.(*ast.KeyValueExpr); ok {
-									switch norm(kv.Key) {
-									case "Fn":
-										f.fn = norm(kv.Value)
-									case "NRet":
-										if n, err := strconv.Atoi(norm(kv.Value)); err == nil {
-											f.nret = &n
-										}
-									case "Protect":
-										f.protect = norm(kv.Value) == "true"
+			names = append(names, n)
+		}
+		sort.Strings(names)
+	}
+	for _, n := range names {
+		f := parse(filepath.Join(dir, n))
+		if f == nil {
+			continue
+		}
+		pk.files = append(pk.files, f)
+		for _, d := range f.Decls {
+			switch v := d.(type) {
+			case *ast.FuncDecl:
+				pk.fileOf[v] = f
+				pk.all = append(pk.all, v)
+				if v.Recv == nil {
+					pk.funcs[v.Name.Name] = v
+				} else {
+					pk.meths[v.Name.Name] = append(pk.meths[v.Name.Name], v)
+				}
+			case *ast.GenDecl:
+				for _, sp := range v.Specs {
+					switch s := sp.(type) {
+					case *ast.TypeSpec:
+						if st, ok := s.Type.(*ast.StructType); ok {
+							pk.structs[s.Name.Name] = st
+							pk.stFile[s.Name.Name] = f
+						}
+					case *ast.ValueSpec:
+						if v.Tok == token.CONST {
+							for i, id := range s.Names {
+								if i < len(s.Values) {
+									if bl, ok := s.Values[i].(*ast.BasicLit); ok {
+										pk.consts[id.Name] = bl
 									}
 								}
 							}
 						}
-						if n := len(v.Body.List); n > 0 {
-							f.errReturnsNil = norm(v.Body.List[n-1]) == "return nil"
-						}
 					}
 				}
 			}
-			if norm(v.Cond) == "lua.LVIsFalse(lval)" && norm(v.Body) == "{ return nil }" {
-				f.lvIsFalse = true
+		}
+	}
+	pk.findPool()
+	return pk
+}
+
+func luaImports(f *ast.File) map[string]string {
+	m := map[string]string{}
+	if f == nil {
+		return m
+	}
+	for _, im := range f.Imports {
+		p, _ := strconv.Unquote(im.Path.Value)
+		parts := strings.Split(p, "/")
+		short := parts[len(parts)-1]
+		if len(parts) > 1 && len(short) >= 2 && short[0] == 'v' && strings.Trim(short[1:], "0123456789") == "" {
+			short = parts[len(parts)-2]
+		}
+		alias := short
+		if im.Name != nil {
+			alias = im.Name.Name
+		}
+		m[alias] = short
+	}
+	return m
+}
+
+var luaPredeclared = map[string]bool{"bool": true, "string": true, "int": true, "int8": true, "int16": true, "int32": true, "int64": true,
+	"uint": true, "uint8": true, "uint16": true, "uint32": true, "uint64": true, "uintptr": true, "byte": true, "rune": true,
+	"float32": true, "float64": true, "error": true, "any": true, "complex64": true, "complex128": true}
+
+// luaType renders a type expression canonically: imports by the last element of their path, exported names as they are,
+// unexported package-level type names as _t.
+func luaType(f *ast.File, e ast.Expr) string {
+	switch v := e.(type) {
+	case nil:
+		return ""
+	case *ast.Ident:
+		if luaPredeclared[v.Name] || ast.IsExported(v.Name) {
+			return v.Name
+		}
+		return "_t"
+	case *ast.StarExpr:
+		return "*" + luaType(f, v.X)
+	case *ast.SelectorExpr:
+		if id, ok := v.X.(*ast.Ident); ok {
+			if s, ok := luaImports(f)[id.Name]; ok {
+				return s + "." + v.Sel.Name
 			}
-		case *ast.AssignStmt:
-			if len(v.Rhs) == 1 && len(v.Lhs) == 2 && norm(v.Lhs[0]) == "result" {
-				if ce, ok := v.Rhs[0].(*ast.CallExpr); ok && len(ce.Args) == 1 && norm(ce.Args[0]) == "lval" {
-					f.unwrap = norm(ce.Fun)
+			return id.Name + "." + v.Sel.Name
+		}
+	case *ast.ArrayType:
+		if v.Len == nil {
+			return "[]" + luaType(f, v.Elt)
+		}
+		return "[" + src(v.Len) + "]" + luaType(f, v.Elt)
+	case *ast.MapType:
+		return "map[" + luaType(f, v.Key) + "]" + luaType(f, v.Value)
+	case *ast.ChanType:
+		return "chan " + luaType(f, v.Value)
+	case *ast.FuncType:
+		return "func"
+	case *ast.InterfaceType:
+		return "any"
+	case *ast.IndexExpr:
+		return luaType(f, v.X)
+	case *ast.IndexListExpr:
+		return luaType(f, v.X)
+	case *ast.ParenExpr:
+		return luaType(f, v.X)
+	case *ast.Ellipsis:
+		return "..." + luaType(f, v.Elt)
+	}
+	return "?"
+}
+
+func luaIsStateType(f *ast.File, e ast.Expr) bool {
+	return strings.HasSuffix(luaType(f, e), "gopher-lua.LState") && strings.HasPrefix(luaType(f, e), "*")
+}
+
+func luaRecvBase(fd *ast.FuncDecl) string {
+	if fd == nil || fd.Recv == nil || len(fd.Recv.List) != 1 {
+		return ""
+	}
+	t := fd.Recv.List[0].Type
+	for {
+		switch v := t.(type) {
+		case *ast.StarExpr:
+			t = v.X
+			continue
+		case *ast.IndexExpr:
+			t = v.X
+			continue
+		case *ast.IndexListExpr:
+			t = v.X
+			continue
+		case *ast.ParenExpr:
+			t = v.X
+			continue
+		case *ast.Ident:
+			return v.Name
+		}
+		return ""
+	}
+}
+
+func luaRecvName(fd *ast.FuncDecl) string {
+	if fd == nil || fd.Recv == nil || len(fd.Recv.List) != 1 || len(fd.Recv.List[0].Names) != 1 {
+		return ""
+	}
+	return fd.Recv.List[0].Names[0].Name
+}
+
+// results of a function as canonical type strings
+func (pk *luaPkg) results(fd *ast.FuncDecl) []string {
+	res := []string{}
+	if fd == nil || fd.Type.Results == nil {
+		return res
+	}
+	f := pk.fileOf[fd]
+	for _, fl := range fd.Type.Results.List {
+		n := len(fl.Names)
+		if n == 0 {
+			n = 1
+		}
+		for i := 0; i < n; i++ {
+			res = append(res, luaType(f, fl.Type))
+		}
+	}
+	return res
+}
+
+func (pk *luaPkg) paramTypes(fd *ast.FuncDecl) []string {
+	res := []string{}
+	if fd == nil || fd.Type.Params == nil {
+		return res
+	}
+	f := pk.fileOf[fd]
+	for _, fl := range fd.Type.Params.List {
+		n := len(fl.Names)
+		if n == 0 {
+			n = 1
+		}
+		for i := 0; i < n; i++ {
+			res = append(res, luaType(f, fl.Type))
+		}
+	}
+	return res
+}
+
+func (pk *luaPkg) returnsError(fd *ast.FuncDecl) bool {
+	for _, t := range pk.results(fd) {
+		if t == "error" {
+			return true
+		}
+	}
+	return false
+}
+
+// sig: how a non-inlined package function is named: by its non-error result types
+func (pk *luaPkg) sig(fd *ast.FuncDecl) string {
+	rs := []string{}
+	for _, t := range pk.results(fd) {
+		if t != "error" {
+			rs = append(rs, t)
+		}
+	}
+	return "fn->" + strings.Join(rs, ",")
+}
+
+func luaMentionsField(n ast.Node, field string) bool {
+	found := false
+	if n == nil || field == "" {
+		return false
+	}
+	ast.Inspect(n, func(x ast.Node) bool {
+		if se, ok := x.(*ast.SelectorExpr); ok && se.Sel.Name == field {
+			found = true
+		}
+		return !found
+	})
+	return found
+}
+
+// findPool: the pool struct is the one with a []*LState field; its methods get their roles from what they do with it.
+func (pk *luaPkg) findPool() {
+	names := []string{}
+	for n := range pk.structs {
+		names = append(names, n)
+	}
+	sort.Strings(names)
+	for _, n := range names {
+		for _, fl := range pk.structs[n].Fields.List {
+			if luaType(pk.stFile[n], fl.Type) == "[]*gopher-lua.LState" && len(fl.Names) == 1 && pk.poolT == "" {
+				pk.poolT, pk.freeF = n, fl.Names[0].Name
+			}
+		}
+	}
+	if pk.poolT == "" {
+		return
+	}
+	for _, fd := range pk.all {
+		if luaRecvBase(fd) != pk.poolT || fd.Body == nil {
+			continue
+		}
+		f := pk.fileOf[fd]
+		role := ""
+		callsNewState, appendsParam := false, false
+		params := map[string]bool{}
+		stateParam := false
+		if fd.Type.Params != nil {
+			for _, fl := range fd.Type.Params.List {
+				for _, id := range fl.Names {
+					params[id.Name] = true
+				}
+				if luaIsStateType(f, fl.Type) {
+					stateParam = true
+				}
+			}
+		}
+		ast.Inspect(fd.Body, func(x ast.Node) bool {
+			ce, ok := x.(*ast.CallExpr)
+			if !ok {
+				return true
+			}
+			if se, ok := ce.Fun.(*ast.SelectorExpr); ok && se.Sel.Name == "NewState" {
+				if id, ok := se.X.(*ast.Ident); ok && luaImports(f)[id.Name] == "gopher-lua" {
+					callsNewState = true
+				}
+			}
+			if id, ok := ce.Fun.(*ast.Ident); ok && id.Name == "append" && len(ce.Args) == 2 && luaMentionsField(ce.Args[0], pk.freeF) {
+				if a, ok := ce.Args[1].(*ast.Ident); ok && params[a.Name] {
+					appendsParam = true
+				}
+			}
+			return true
+		})
+		res := pk.results(fd)
+		stateRes := len(res) > 0 && res[0] == "*gopher-lua.LState"
+		switch {
+		case callsNewState && !luaMentionsField(fd.Body, pk.freeF):
+			role = "new"
+		case appendsParam && stateParam:
+			role = "put"
+		case stateRes && luaMentionsField(fd.Body, pk.freeF):
+			role = "get"
+		case !stateRes && !stateParam && luaMentionsField(fd.Body, pk.freeF):
+			role = "flush"
+		}
+		if role != "" {
+			if old, dup := pk.role[fd.Name.Name]; dup && old != role {
+				role = "ambiguous"
+			}
+			pk.role[fd.Name.Name] = role
+		}
+	}
+	pk.promoteRoleWrappers()
+}
+
+// promoteRoleWrappers: when the body of the pool's get / put was moved into a helper method of the pool, the role belongs
+// to the outer method (the one with the same kind of signature that calls the helper); the helper is then simply inlined.
+func (pk *luaPkg) promoteRoleWrappers() {
+	for _, fd := range pk.all {
+		if luaRecvBase(fd) != pk.poolT || fd.Body == nil || pk.role[fd.Name.Name] != "" {
+			continue
+		}
+		f := pk.fileOf[fd]
+		stateParam := false
+		if fd.Type.Params != nil {
+			for _, fl := range fd.Type.Params.List {
+				if luaIsStateType(f, fl.Type) {
+					stateParam = true
+				}
+			}
+		}
+		res := pk.results(fd)
+		stateRes := len(res) > 0 && res[0] == "*gopher-lua.LState"
+		callee := ""
+		ast.Inspect(fd.Body, func(x ast.Node) bool {
+			if ce, ok := x.(*ast.CallExpr); ok {
+				if se, ok := ce.Fun.(*ast.SelectorExpr); ok && !ast.IsExported(se.Sel.Name) {
+					r := pk.role[se.Sel.Name]
+					if (r == "put" && stateParam && !stateRes) || (r == "get" && stateRes && !stateParam) {
+						callee = se.Sel.Name
+					}
+				}
+			}
+			return true
+		})
+		if callee != "" {
+			pk.role[fd.Name.Name] = pk.role[callee]
+			delete(pk.role, callee)
+		}
+	}
+}
+
+func (pk *luaPkg) roleDecl(role string) []*ast.FuncDecl {
+	res := []*ast.FuncDecl{}
+	for _, fd := range pk.all {
+		if luaRecvBase(fd) == pk.poolT && pk.poolT != "" && pk.role[fd.Name.Name] == role {
+			res = append(res, fd)
+		}
+	}
+	return res
+}
+
+// ---------------------------------------------------------------------------------------------------------------------
+// symbolic values
+
+type luaV struct {
+	op string // param lit pkg glob fnref sel idx slice addr deref un bin comp kv call mcall vcall fcall prim tup assert is has each key err zero func opaque
+	s  string
+	k  []*luaV
+	st bool // known to be a *lua.LState
+}
+
+func luaLit(s string) *luaV { return &luaV{op: "lit", s: s} }
+
+func luaArgs(k []*luaV) string {
+	p := []string{}
+	for _, a := range k {
+		p = append(p, a.String())
+	}
+	return strings.Join(p, ", ")
+}
+
+func (v *luaV) String() string {
+	if v == nil {
+		return ""
+	}
+	switch v.op {
+	case "param", "lit", "pkg", "glob", "fnref":
+		return v.s
+	case "sel":
+		return v.k[0].String() + "." + v.s
+	case "idx":
+		return v.k[0].String() + "[" + v.k[1].String() + "]"
+	case "has":
+		return "has(" + v.k[0].String() + ", " + v.k[1].String() + ")"
+	case "slice":
+		return v.k[0].String() + "[" + v.k[1].String() + ":" + v.k[2].String() + "]"
+	case "addr":
+		return "&" + v.k[0].String()
+	case "deref":
+		return "*" + v.k[0].String()
+	case "un":
+		return v.s + v.k[0].String()
+	case "bin":
+		return "(" + v.k[0].String() + " " + v.s + " " + v.k[1].String() + ")"
+	case "comp":
+		return v.s + "{" + luaArgs(v.k) + "}"
+	case "kv":
+		return v.s + ": " + v.k[0].String()
+	case "call":
+		return v.s + "(" + luaArgs(v.k) + ")"
+	case "mcall":
+		if v.s == "CallByParam" {
+			return v.k[0].String() + ".CallByParam(..)" // the arguments are shown once, in the effect
+		}
+		return v.k[0].String() + "." + v.s + "(" + luaArgs(v.k[1:]) + ")"
+	case "vcall":
+		return v.k[0].String() + "(" + luaArgs(v.k[1:]) + ")"
+	case "fcall":
+		return v.s + "(" + luaArgs(v.k) + ")"
+	case "prim":
+		return v.s + "(" + luaArgs(v.k) + ")"
+	case "tup":
+		inner := v.k[0]
+		if v.s == "err" {
+			if inner.op == "prim" && (inner.s == "get" || inner.s == "new") {
+				return luaStateName(inner) + ".err"
+			}
+			return inner.String() + ".err"
+		}
+		if inner.op == "prim" && (inner.s == "get" || inner.s == "new") && v.s == "0" {
+			return luaStateName(inner)
+		}
+		if v.s == "0" && inner.op == "fcall" {
+			return inner.String()
+		}
+		return inner.String() + "." + v.s
+	case "assert":
+		return v.k[0].String() + ".(" + v.s + ")"
+	case "is":
+		return "is(" + v.k[0].String() + ", " + v.s + ")"
+	case "each":
+		return "each(" + v.k[0].String() + ")"
+	case "key":
+		return "key(" + v.k[0].String() + ")"
+	case "err":
+		return "<error>"
+	case "zero":
+		return "zero"
+	case "func":
+		return "func"
+	}
+	return "?" + v.s
+}
+
+// the state a pool primitive hands out: S (from get), N (from new)
+func luaStateName(prim *luaV) string {
+	if prim.s == "new" {
+		return "N"
+	}
+	return "S"
+}
+
+func (v *luaV) walk(f func(*luaV)) {
+	if v == nil {
+		return
+	}
+	f(v)
+	for _, c := range v.k {
+		c.walk(f)
+	}
+}
+
+type luaAtom struct {
+	v   *luaV
+	neg bool
+}
+
+var luaNegOp = map[string]string{"==": "!=", "!=": "==", "<": ">=", ">=": "<", ">": "<=", "<=": ">"}
+var luaSwapOp = map[string]string{"==": "==", "!=": "!=", "<": ">", ">": "<", "<=": ">=", ">=": "<="}
+
+func luaIsConstish(v *luaV) bool { return v.op == "lit" || v.op == "pkg" }
+
+// normalise: no outer `!`, negation pushed into comparisons, constants on the right
+func luaNormAtom(a luaAtom) luaAtom {
+	for a.v.op == "un" && a.v.s == "!" {
+		a = luaAtom{a.v.k[0], !a.neg}
+	}
+	if a.v.op == "bin" {
+		if _, cmp := luaNegOp[a.v.s]; cmp {
+			op, x, y := a.v.s, a.v.k[0], a.v.k[1]
+			if a.neg {
+				op = luaNegOp[op]
+			}
+			if luaIsConstish(x) && !luaIsConstish(y) {
+				x, y, op = y, x, luaSwapOp[op]
+			}
+			// a length is never negative: len(x) > 0, >= 1  ==  != 0;   len(x) < 1, <= 0  ==  == 0
+			if x.op == "call" && (x.s == "len" || x.s == "cap") && y.op == "lit" {
+				switch op + y.s {
+				case ">0", ">=1":
+					op, y = "!=", luaLit("0")
+				case "<1", "<=0":
+					op, y = "==", luaLit("0")
+				}
+			}
+			return luaAtom{&luaV{op: "bin", s: op, k: []*luaV{x, y}}, false}
+		}
+	}
+	return a
+}
+
+func (a luaAtom) String() string {
+	if a.neg {
+		return "!" + a.v.String()
+	}
+	return a.v.String()
+}
+
+func luaNonNil(v *luaV) bool {
+	return v.op == "err" || v.op == "addr" || v.op == "comp" || v.op == "func" || v.op == "fnref" || (v.op == "call" && (v.s == "make" || v.s == "new"))
+}
+
+// fold: 1 = certainly true, 0 = certainly false, -1 = symbolic
+func luaFold(a luaAtom) int {
+	b2i := func(b bool) int {
+		if b != a.neg {
+			return 1
+		}
+		return 0
+	}
+	v := a.v
+	if v.op == "lit" && (v.s == "true" || v.s == "false") {
+		return b2i(v.s == "true")
+	}
+	if v.op == "bin" && (v.s == "==" || v.s == "!=") {
+		x, y := v.k[0], v.k[1]
+		if x.op == "lit" && y.op == "lit" {
+			return b2i((x.s == y.s) == (v.s == "=="))
+		}
+		if y.op == "lit" && y.s == "nil" && luaNonNil(x) {
+			return b2i(v.s == "!=")
+		}
+		if x.op == "lit" && x.s == "nil" && luaNonNil(y) {
+			return b2i(v.s == "!=")
+		}
+	}
+	return -1
+}
+
+// ---------------------------------------------------------------------------------------------------------------------
+// paths
+
+type luaEff struct {
+	kind string // call defer set loop
+	v    *luaV  // call / defer: the call;  set: the place
+	rhs  *luaV
+	text string // loop: rendered body
+}
+
+func (e luaEff) String() string {
+	switch e.kind {
+	case "call":
+		if e.v.op == "mcall" && e.v.s == "CallByParam" {
+			return e.v.k[0].String() + ".CallByParam(" + luaArgs(e.v.k[1:]) + ")"
+		}
+		return e.v.String()
+	case "defer":
+		return "defer " + e.v.String()
+	case "set":
+		return e.v.String() + " := " + e.rhs.String()
+	}
+	return e.text
+}
+
+type luaBind struct {
+	name  string
+	v     *luaV
+	depth int
+}
+
+type luaPath struct {
+	atoms []luaAtom
+	effs  []luaEff
+	env   []luaBind
+	depth int
+	done  string // "" | return | break | continue | ?reason
+	ret   []*luaV
+}
+
+func (p *luaPath) clone() *luaPath {
+	q := &luaPath{depth: p.depth, done: p.done}
+	q.atoms = append([]luaAtom{}, p.atoms...)
+	q.effs = append([]luaEff{}, p.effs...)
+	q.env = append([]luaBind{}, p.env...)
+	q.ret = append([]*luaV{}, p.ret...)
+	return q
+}
+
+func (p *luaPath) poison(why string) {
+	if !strings.HasPrefix(p.done, "?") {
+		p.done = "?" + why
+	}
+}
+
+func (p *luaPath) lookup(name string) (*luaV, bool) {
+	for i := len(p.env) - 1; i >= 0; i-- {
+		if p.env[i].name == name {
+			return p.env[i].v, true
+		}
+	}
+	return nil, false
+}
+
+func (p *luaPath) define(name string, v *luaV) {
+	if name == "_" {
+		return
+	}
+	for i := len(p.env) - 1; i >= 0 && p.env[i].depth == p.depth; i-- {
+		if p.env[i].name == name {
+			p.env[i].v = v
+			return
+		}
+	}
+	p.env = append(p.env, luaBind{name, v, p.depth})
+}
+
+func (p *luaPath) assign(name string, v *luaV) bool {
+	for i := len(p.env) - 1; i >= 0; i-- {
+		if p.env[i].name == name {
+			p.env[i].v = v
+			return true
+		}
+	}
+	return false
+}
+
+func (p *luaPath) popTo(depth int) {
+	n := len(p.env)
+	for n > 0 && p.env[n-1].depth > depth {
+		n--
+	}
+	p.env = p.env[:n]
+	p.depth = depth
+}
+
+// addAtom: false when the path became infeasible
+func (p *luaPath) addAtom(v *luaV, neg bool) bool {
+	a := luaNormAtom(luaAtom{v, neg})
+	switch luaFold(a) {
+	case 1:
+		return true
+	case 0:
+		return false
+	}
+	s := a.String()
+	n := luaNormAtom(luaAtom{a.v, !a.neg}).String()
+	for _, b := range p.atoms {
+		bs := b.String()
+		if bs == s {
+			return true
+		}
+		if bs == n {
+			return false
+		}
+	}
+	p.atoms = append(p.atoms, a)
+	return true
+}
+
+type luaRes struct {
+	p *luaPath
+	v []*luaV
+}
+
+type luaEval struct {
+	pk       *luaPkg
+	files    []*ast.File
+	stack    []*ast.FuncDecl
+	named    [][]string
+	recvT    string // struct of the top-level receiver (for rendering its unexported fields by type)
+	inDefer  bool
+	noInline bool
+}
+
+func (ev *luaEval) file() *ast.File { return ev.files[len(ev.files)-1] }
+
+// ---- what gets inlined
+
+var luaBenignStateAPI = map[string]bool{"NewUserData": true, "SetMetatable": true, "GetTypeMetatable": true, "NewTypeMetatable": true,
+	"NewFunction": true, "NewTable": true}
+var luaSyncAPI = map[string]bool{"Lock": true, "Unlock": true, "RLock": true, "RUnlock": true}
+
+func (pk *luaPkg) resolveFunc(name string) *ast.FuncDecl { return pk.funcs[name] }
+
+func (pk *luaPkg) resolveMeth(name string) *ast.FuncDecl {
+	if l := pk.meths[name]; len(l) == 1 {
+		return l[0]
+	}
+	return nil
+}
+
+// benign: a helper whose body (transitively) does nothing this analysis looks at — it stays an opaque pure call
+func (pk *luaPkg) benign(fd *ast.FuncDecl, depth int) bool {
+	if fd == nil || fd.Body == nil {
+		return true
+	}
+	if depth > 4 {
+		return false
+	}
+	f := pk.fileOf[fd]
+	stateVars := map[string]bool{}
+	if fd.Type.Params != nil {
+		for _, fl := range fd.Type.Params.List {
+			if luaIsStateType(f, fl.Type) {
+				for _, id := range fl.Names {
+					stateVars[id.Name] = true
+				}
+			}
+		}
+	}
+	ok := true
+	ast.Inspect(fd.Body, func(x ast.Node) bool {
+		switch v := x.(type) {
+		case *ast.TypeAssertExpr, *ast.GoStmt, *ast.SendStmt, *ast.SelectStmt, *ast.DeferStmt:
+			ok = false
+		case *ast.SelectorExpr:
+			if pk.freeF != "" && v.Sel.Name == pk.freeF {
+				ok = false
+			}
+		case *ast.CallExpr:
+			switch fu := v.Fun.(type) {
+			case *ast.Ident:
+				if g := pk.resolveFunc(fu.Name); g != nil && (pk.returnsError(g) || !pk.benign(g, depth+1)) {
+					ok = false
+				}
+			case *ast.SelectorExpr:
+				name := fu.Sel.Name
+				if luaSyncAPI[name] {
+					ok = false
+				}
+				if id, isId := fu.X.(*ast.Ident); isId && stateVars[id.Name] {
+					if !luaBenignStateAPI[name] {
+						ok = false
+					}
+				} else if _, imp := luaImports(f)[luaRootIdent(fu.X)]; !imp || !isId {
+					if pk.role[name] != "" && !ast.IsExported(name) {
+						ok = false
+					} else if g := pk.resolveMeth(name); g != nil && !ast.IsExported(name) && (pk.returnsError(g) || !pk.benign(g, depth+1)) {
+						ok = false
+					}
+				}
+			}
+		}
+		return ok
+	})
+	return ok
+}
+
+func luaRootIdent(e ast.Expr) string {
+	for {
+		switch v := e.(type) {
+		case *ast.Ident:
+			return v.Name
+		case *ast.SelectorExpr:
+			e = v.X
+		case *ast.CallExpr:
+			e = v.Fun
+		case *ast.ParenExpr:
+			e = v.X
+		case *ast.StarExpr:
+			e = v.X
+		case *ast.IndexExpr:
+			e = v.X
+		default:
+			return ""
+		}
+	}
+}
+
+func (ev *luaEval) shouldInline(fd *ast.FuncDecl) bool {
+	if fd == nil || fd.Body == nil || ev.noInline || ev.inDefer || len(ev.stack) > 5 {
+		return false
+	}
+	for _, s := range ev.stack {
+		if s == fd {
+			return false
+		}
+	}
+	if ev.pk.returnsError(fd) || ev.pk.benign(fd, 0) {
+		return false
+	}
+	if fd.Type.Params != nil {
+		for _, fl := range fd.Type.Params.List {
+			if _, variadic := fl.Type.(*ast.Ellipsis); variadic {
+				return false
+			}
+		}
+	}
+	return true
+}
+
+// ---------------------------------------------------------------------------------------------------------------------
+// expressions
+
+func luaOne(p *luaPath, v *luaV) []luaRes { return []luaRes{{p, []*luaV{v}}} }
+
+func luaFirst(vs []*luaV) *luaV {
+	if len(vs) == 0 {
+		return &luaV{op: "opaque", s: "novalue"}
+	}
+	return vs[0]
+}
+
+// exprs evaluates es left to right; every result carries one value per expression
+func (ev *luaEval) exprs(p *luaPath, es []ast.Expr) []luaRes {
+	cur := []luaRes{{p, nil}}
+	for _, e := range es {
+		next := []luaRes{}
+		for _, c := range cur {
+			for _, r := range ev.expr(c.p, e) {
+				vs := append(append([]*luaV{}, c.v...), luaFirst(r.v))
+				next = append(next, luaRes{r.p, vs})
+			}
+		}
+		cur = next
+	}
+	return cur
+}
+
+func (ev *luaEval) fieldName(base *luaV, name string) string {
+	if base.op == "param" && base.s == "$recv" && !ast.IsExported(name) && ev.recvT != "" {
+		if ev.recvT == ev.pk.poolT && name == ev.pk.freeF {
+			return "<free>"
+		}
+		if st := ev.pk.structs[ev.recvT]; st != nil {
+			for _, fl := range st.Fields.List {
+				for _, id := range fl.Names {
+					if id.Name == name {
+						return "<" + luaType(ev.pk.stFile[ev.recvT], fl.Type) + ">"
+					}
+				}
+			}
+		}
+	}
+	return name
+}
+
+func luaIsFree(v *luaV) bool { return v.op == "sel" && v.s == "<free>" }
+
+func (ev *luaEval) isImport(p *luaPath, e ast.Expr) (string, bool) {
+	id, ok := e.(*ast.Ident)
+	if !ok {
+		return "", false
+	}
+	if _, local := p.lookup(id.Name); local {
+		return "", false
+	}
+	s, ok := luaImports(ev.file())[id.Name]
+	return s, ok
+}
+
+func (ev *luaEval) expr(p *luaPath, e ast.Expr) []luaRes {
+	switch v := e.(type) {
+	case *ast.BasicLit:
+		switch v.Kind {
+		case token.INT:
+			if n, err := strconv.ParseInt(v.Value, 0, 64); err == nil {
+				return luaOne(p, luaLit(strconv.FormatInt(n, 10)))
+			}
+		case token.STRING:
+			if s, err := strconv.Unquote(v.Value); err == nil {
+				return luaOne(p, luaLit(strconv.Quote(s)))
+			}
+		}
+		return luaOne(p, luaLit(v.Value))
+	case *ast.Ident:
+		if x, ok := p.lookup(v.Name); ok {
+			return luaOne(p, x)
+		}
+		switch v.Name {
+		case "nil", "true", "false":
+			return luaOne(p, luaLit(v.Name))
+		}
+		if bl, ok := ev.pk.consts[v.Name]; ok {
+			return ev.expr(p, bl)
+		}
+		if g := ev.pk.resolveFunc(v.Name); g != nil {
+			return luaOne(p, &luaV{op: "fnref", s: ev.pk.sig(g)})
+		}
+		if ast.IsExported(v.Name) {
+			return luaOne(p, &luaV{op: "glob", s: v.Name})
+		}
+		return luaOne(p, &luaV{op: "glob", s: "_g"})
+	case *ast.ParenExpr:
+		return ev.expr(p, v.X)
+	case *ast.SelectorExpr:
+		if s, ok := ev.isImport(p, v.X); ok {
+			return luaOne(p, &luaV{op: "pkg", s: s + "." + v.Sel.Name})
+		}
+		out := []luaRes{}
+		for _, r := range ev.expr(p, v.X) {
+			b := luaFirst(r.v)
+			out = append(out, luaRes{r.p, []*luaV{{op: "sel", s: ev.fieldName(b, v.Sel.Name), k: []*luaV{b}}}})
+		}
+		return out
+	case *ast.StarExpr:
+		out := []luaRes{}
+		for _, r := range ev.expr(p, v.X) {
+			out = append(out, luaRes{r.p, []*luaV{{op: "deref", k: []*luaV{luaFirst(r.v)}}}})
+		}
+		return out
+	case *ast.UnaryExpr:
+		if v.Op == token.ARROW {
+			p.poison("receive")
+			return luaOne(p, &luaV{op: "opaque", s: "recv"})
+		}
+		out := []luaRes{}
+		for _, r := range ev.expr(p, v.X) {
+			x := luaFirst(r.v)
+			var nv *luaV
+			switch {
+			case v.Op == token.AND:
+				nv = &luaV{op: "addr", k: []*luaV{x}}
+			case v.Op == token.SUB && x.op == "lit":
+				nv = luaLit("-" + x.s)
+			default:
+				nv = &luaV{op: "un", s: v.Op.String(), k: []*luaV{x}}
+			}
+			out = append(out, luaRes{r.p, []*luaV{nv}})
+		}
+		return out
+	case *ast.BinaryExpr:
+		out := []luaRes{}
+		for _, r := range ev.exprs(p, []ast.Expr{v.X, v.Y}) {
+			out = append(out, luaRes{r.p, []*luaV{{op: "bin", s: v.Op.String(), k: []*luaV{r.v[0], r.v[1]}}}})
+		}
+		return out
+	case *ast.CallExpr:
+		return ev.call(p, v, false)
+	case *ast.CompositeLit:
+		typ := luaType(ev.file(), v.Type)
+		keyed := len(v.Elts) > 0
+		vals := []ast.Expr{}
+		keys := []string{}
+		for _, el := range v.Elts {
+			if kv, ok := el.(*ast.KeyValueExpr); ok {
+				if id, ok := kv.Key.(*ast.Ident); ok {
+					keys = append(keys, id.Name)
+					vals = append(vals, kv.Value)
+					continue
+				}
+				keyed = false
+				keys = append(keys, "")
+				vals = append(vals, kv.Value)
+				continue
+			}
+			keyed = false
+			keys = append(keys, "")
+			vals = append(vals, el)
+		}
+		out := []luaRes{}
+		for _, r := range ev.exprs(p, vals) {
+			ks := []*luaV{}
+			for i, x := range r.v {
+				if keyed {
+					ks = append(ks, &luaV{op: "kv", s: keys[i], k: []*luaV{x}})
+				} else {
+					ks = append(ks, x)
+				}
+			}
+			if keyed {
+				sort.SliceStable(ks, func(i, j int) bool { return ks[i].s < ks[j].s })
+			}
+			out = append(out, luaRes{r.p, []*luaV{{op: "comp", s: typ, k: ks}}})
+		}
+		return out
+	case *ast.IndexExpr:
+		out := []luaRes{}
+		for _, r := range ev.exprs(p, []ast.Expr{v.X, v.Index}) {
+			if r.v[1].op == "key" && r.v[1].k[0].String() == r.v[0].String() {
+				// x[i] inside `for i := range x` is the element `for _, e := range x` names directly
+				out = append(out, luaRes{r.p, []*luaV{{op: "each", k: []*luaV{r.v[0]}, st: luaIsFree(r.v[0])}}})
+				continue
+			}
+			out = append(out, luaRes{r.p, []*luaV{{op: "idx", k: []*luaV{r.v[0], r.v[1]}, st: luaIsFree(r.v[0])}}})
+		}
+		return out
+	case *ast.SliceExpr:
+		if v.Slice3 {
+			break
+		}
+		es := []ast.Expr{v.X}
+		if v.Low != nil {
+			es = append(es, v.Low)
+		}
+		if v.High != nil {
+			es = append(es, v.High)
+		}
+		out := []luaRes{}
+		for _, r := range ev.exprs(p, es) {
+			lo, hi := luaLit(""), luaLit("")
+			i := 1
+			if v.Low != nil {
+				lo = r.v[i]
+				i++
+				if lo.op == "lit" && lo.s == "0" {
+					lo = luaLit("")
+				}
+			}
+			if v.High != nil {
+				hi = r.v[i]
+			}
+			out = append(out, luaRes{r.p, []*luaV{{op: "slice", k: []*luaV{r.v[0], lo, hi}}}})
+		}
+		return out
+	case *ast.TypeAssertExpr:
+		if v.Type == nil {
+			break
+		}
+		out := []luaRes{}
+		for _, r := range ev.expr(p, v.X) {
+			out = append(out, luaRes{r.p, []*luaV{{op: "assert", s: luaType(ev.file(), v.Type), k: []*luaV{luaFirst(r.v)}}}})
+		}
+		return out
+	case *ast.FuncLit:
+		return luaOne(p, &luaV{op: "func"})
+	}
+	p.poison("expr")
+	return luaOne(p, &luaV{op: "opaque", s: "expr"})
+}
+
+var luaBuiltins = map[string]bool{"len": true, "cap": true, "append": true, "make": true, "new": true, "delete": true, "copy": true,
+	"panic": true, "close": true, "min": true, "max": true, "print": true, "println": true, "clear": true}
+var luaBuiltinEffect = map[string]bool{"delete": true, "copy": true, "panic": true, "close": true, "clear": true}
+
+func (p *luaPath) effect(kind string, v *luaV) { p.effs = append(p.effs, luaEff{kind: kind, v: v}) }
+
+func (ev *luaEval) call(p *luaPath, ce *ast.CallExpr, deferred bool) []luaRes {
+	kind := "call"
+	if deferred {
+		kind = "defer"
+	}
+	fun := ce.Fun
+	for {
+		if pe, ok := fun.(*ast.ParenExpr); ok {
+			fun = pe.X
+			continue
+		}
+		break
+	}
+	finish := func(mk func(args []*luaV) (*luaV, bool), argExprs []ast.Expr, base *luaPath) []luaRes {
+		out := []luaRes{}
+		for _, r := range ev.exprs(base, argExprs) {
+			v, eff := mk(r.v)
+			if eff {
+				r.p.effect(kind, v)
+			}
+			out = append(out, luaRes{r.p, []*luaV{v}})
+		}
+		return out
+	}
+	switch fu := fun.(type) {
+	case *ast.Ident:
+		if lv, ok := p.lookup(fu.Name); ok {
+			return finish(func(a []*luaV) (*luaV, bool) { return &luaV{op: "vcall", k: append([]*luaV{lv}, a...)}, true }, ce.Args, p)
+		}
+		if luaBuiltins[fu.Name] {
+			args := ce.Args
+			pre := []*luaV{}
+			if (fu.Name == "make" || fu.Name == "new") && len(args) > 0 {
+				pre = append(pre, luaLit(luaType(ev.file(), args[0])))
+				args = args[1:]
+			}
+			return finish(func(a []*luaV) (*luaV, bool) {
+				return &luaV{op: "call", s: fu.Name, k: append(append([]*luaV{}, pre...), a...)}, luaBuiltinEffect[fu.Name]
+			}, args, p)
+		}
+		if g := ev.pk.resolveFunc(fu.Name); g != nil {
+			return ev.pkgCall(p, g, nil, ce.Args, kind, deferred)
+		}
+		name := fu.Name
+		if !luaPredeclared[name] && !ast.IsExported(name) {
+			name = "_t"
+		}
+		return finish(func(a []*luaV) (*luaV, bool) { return &luaV{op: "call", s: name, k: a}, false }, ce.Args, p)
+	case *ast.SelectorExpr:
+		name := fu.Sel.Name
+		if s, ok := ev.isImport(p, fu.X); ok {
+			full := s + "." + name
+			if full == "fmt.Errorf" || full == "errors.New" {
+				return luaOne(p, &luaV{op: "err"})
+			}
+			return finish(func(a []*luaV) (*luaV, bool) {
+				return &luaV{op: "call", s: full, k: a, st: full == "gopher-lua.NewState"}, false
+			}, ce.Args, p)
+		}
+		out := []luaRes{}
+		for _, rr := range ev.expr(p, fu.X) {
+			recv := luaFirst(rr.v)
+			switch {
+			case recv.st:
+				out = append(out, finish(func(a []*luaV) (*luaV, bool) {
+					return &luaV{op: "mcall", s: name, k: append([]*luaV{recv}, a...)}, true
+				}, ce.Args, rr.p)...)
+			case ev.pk.role[name] != "" && !ast.IsExported(name):
+				role := ev.pk.role[name]
+				for _, r := range ev.exprs(rr.p, ce.Args) {
+					pv := &luaV{op: "prim", s: role, k: r.v}
+					r.p.effect(kind, pv)
+					if role == "get" || role == "new" {
+						out = append(out, luaRes{r.p, []*luaV{{op: "tup", s: "0", k: []*luaV{pv}, st: true}, {op: "tup", s: "err", k: []*luaV{pv}}}})
+					} else {
+						out = append(out, luaRes{r.p, []*luaV{pv}})
+					}
+				}
+			default:
+				if g := ev.pk.resolveMeth(name); g != nil && (!ast.IsExported(name) || (recv.op == "param" && recv.s == "$recv")) {
+					out = append(out, ev.pkgCall(rr.p, g, recv, ce.Args, kind, deferred)...)
+				} else {
+					out = append(out, finish(func(a []*luaV) (*luaV, bool) {
+						return &luaV{op: "mcall", s: name, k: append([]*luaV{recv}, a...)}, luaSyncAPI[name]
+					}, ce.Args, rr.p)...)
+				}
+			}
+		}
+		return out
+	case *ast.FuncLit:
+		p.poison("funclit-call")
+		return luaOne(p, &luaV{op: "opaque", s: "funclit"})
+	}
+	out := []luaRes{}
+	for _, rr := range ev.expr(p, fun) {
+		callee := luaFirst(rr.v)
+		out = append(out, finish(func(a []*luaV) (*luaV, bool) { return &luaV{op: "vcall", k: append([]*luaV{callee}, a...)}, true }, ce.Args, rr.p)...)
+	}
+	return out
+}
+
+// pkgCall: a call of a function / method declared in the analysed package
+func (ev *luaEval) pkgCall(p *luaPath, g *ast.FuncDecl, recv *luaV, argExprs []ast.Expr, kind string, deferred bool) []luaRes {
+	out := []luaRes{}
+	for _, r := range ev.exprs(p, argExprs) {
+		if !deferred && ev.shouldInline(g) {
+			out = append(out, ev.inline(r.p, g, recv, r.v)...)
+			continue
+		}
+		args := r.v
+		if recv != nil {
+			args = append([]*luaV{recv}, args...)
+		}
+		cv := &luaV{op: "fcall", s: ev.pk.sig(g), k: args}
+		if ev.pk.returnsError(g) || deferred || !ev.pk.benign(g, 0) {
+			r.p.effect(kind, cv)
+		}
+		res := ev.pk.results(g)
+		vals := []*luaV{}
+		nonErr := 0
+		for _, t := range res {
+			if t != "error" {
+				nonErr++
+			}
+		}
+		i := 0
+		for _, t := range res {
+			switch {
+			case t == "error":
+				vals = append(vals, &luaV{op: "tup", s: "err", k: []*luaV{cv}})
+			case nonErr == 1 && !ev.pk.returnsError(g):
+				vals = append(vals, cv)
+				i++
+			default:
+				vals = append(vals, &luaV{op: "tup", s: strconv.Itoa(i), k: []*luaV{cv}, st: t == "*gopher-lua.LState"})
+				i++
+			}
+		}
+		if len(vals) == 0 {
+			vals = []*luaV{cv}
+		}
+		out = append(out, luaRes{r.p, vals})
+	}
+	return out
+}
+
+func (ev *luaEval) bindParams(q *luaPath, g *ast.FuncDecl, recv *luaV, args []*luaV) []string {
+	f := ev.pk.fileOf[g]
+	if rn := luaRecvName(g); rn != "" && recv != nil {
+		q.define(rn, recv)
+	}
+	i := 0
+	if g.Type.Params != nil {
+		for _, fl := range g.Type.Params.List {
+			for _, id := range fl.Names {
+				var a *luaV = &luaV{op: "opaque", s: "arg"}
+				if i < len(args) {
+					a = args[i]
+				}
+				if luaIsStateType(f, fl.Type) && !a.st {
+					c := *a
+					c.st = true
+					a = &c
+				}
+				q.define(id.Name, a)
+				i++
+			}
+			if len(fl.Names) == 0 {
+				i++
+			}
+		}
+	}
+	named := []string{}
+	if g.Type.Results != nil {
+		for _, fl := range g.Type.Results.List {
+			for _, id := range fl.Names {
+				q.define(id.Name, &luaV{op: "zero", s: luaType(f, fl.Type)})
+				named = append(named, id.Name)
+			}
+		}
+	}
+	return named
+}
+
+func (ev *luaEval) inline(p *luaPath, g *ast.FuncDecl, recv *luaV, args []*luaV) []luaRes {
+	savedEnv := append([]luaBind{}, p.env...)
+	savedDepth := p.depth
+	p.env = nil
+	p.depth = 0
+	named := ev.bindParams(p, g, recv, args)
+	ev.files = append(ev.files, ev.pk.fileOf[g])
+	ev.stack = append(ev.stack, g)
+	ev.named = append(ev.named, named)
+	outs := ev.block([]*luaPath{p}, g.Body.List)
+	ev.files = ev.files[:len(ev.files)-1]
+	ev.stack = ev.stack[:len(ev.stack)-1]
+	ev.named = ev.named[:len(ev.named)-1]
+	res := []luaRes{}
+	for _, o := range outs {
+		var vals []*luaV
+		switch {
+		case o.done == "return":
+			vals = o.ret
+			o.done = ""
+		case o.done == "":
+		case o.done == "break" || o.done == "continue":
+			o.poison("stray-" + o.done)
+		}
+		o.ret = nil
+		o.env = append([]luaBind{}, savedEnv...)
+		o.depth = savedDepth
+		res = append(res, luaRes{o, vals})
+	}
+	return res
+}
+
+// ---------------------------------------------------------------------------------------------------------------------
+// conditions and statements
+
+// cond forks p on e: the paths on which e holds and those on which it does not
+func (ev *luaEval) cond(p *luaPath, e ast.Expr) (tr, fl []*luaPath) {
+	switch v := e.(type) {
+	case *ast.ParenExpr:
+		return ev.cond(p, v.X)
+	case *ast.UnaryExpr:
+		if v.Op == token.NOT {
+			f, t := ev.cond(p, v.X)
+			return t, f
+		}
+	case *ast.BinaryExpr:
+		if v.Op == token.LAND {
+			ta, fa := ev.cond(p, v.X)
+			fl = fa
+			for _, q := range ta {
+				tb, fb := ev.cond(q, v.Y)
+				tr = append(tr, tb...)
+				fl = append(fl, fb...)
+			}
+			return
+		}
+		if v.Op == token.LOR {
+			ta, fa := ev.cond(p, v.X)
+			tr = ta
+			for _, q := range fa {
+				tb, fb := ev.cond(q, v.Y)
+				tr = append(tr, tb...)
+				fl = append(fl, fb...)
+			}
+			return
+		}
+	}
+	for _, r := range ev.expr(p, e) {
+		t, f := luaSplit(r.p, luaFirst(r.v))
+		tr = append(tr, t...)
+		fl = append(fl, f...)
+	}
+	return
+}
+
+func luaSplit(p *luaPath, v *luaV) (tr, fl []*luaPath) {
+	if strings.HasPrefix(p.done, "?") {
+		return []*luaPath{p}, nil
+	}
+	q := p.clone()
+	if p.addAtom(v, false) {
+		tr = append(tr, p)
+	}
+	if q.addAtom(v, true) {
+		fl = append(fl, q)
+	}
+	return
+}
+
+func (ev *luaEval) block(ps []*luaPath, stmts []ast.Stmt) []*luaPath {
+	for _, s := range stmts {
+		next := []*luaPath{}
+		for _, p := range ps {
+			if p.done != "" {
+				next = append(next, p)
+				continue
+			}
+			next = append(next, ev.stmt(p, s)...)
+		}
+		ps = next
+		if len(ps) > 4096 {
+			for _, p := range ps {
+				p.poison("too-many-paths")
+			}
+		}
+	}
+	return ps
+}
+
+func (ev *luaEval) scoped(p *luaPath, f func(p *luaPath) []*luaPath) []*luaPath {
+	d := p.depth
+	p.depth++
+	outs := f(p)
+	for _, o := range outs {
+		o.popTo(d)
+	}
+	return outs
+}
+
+func (ev *luaEval) store(p *luaPath, lhs ast.Expr, v *luaV, define bool) []*luaPath {
+	if id, ok := lhs.(*ast.Ident); ok {
+		if define {
+			p.define(id.Name, v)
+			return []*luaPath{p}
+		}
+		if id.Name == "_" || p.assign(id.Name, v) {
+			return []*luaPath{p}
+		}
+		name := "_g"
+		if ast.IsExported(id.Name) {
+			name = id.Name
+		}
+		p.effs = append(p.effs, luaEff{kind: "set", v: &luaV{op: "glob", s: name}, rhs: v})
+		return []*luaPath{p}
+	}
+	outs := []*luaPath{}
+	for _, r := range ev.expr(p, lhs) {
+		r.p.effs = append(r.p.effs, luaEff{kind: "set", v: luaFirst(r.v), rhs: v})
+		outs = append(outs, r.p)
+	}
+	return outs
+}
+
+func (ev *luaEval) storeAll(p *luaPath, lhs []ast.Expr, vals []*luaV, define bool) []*luaPath {
+	ps := []*luaPath{p}
+	for i, l := range lhs {
+		var v *luaV = &luaV{op: "opaque", s: "arity"}
+		if i < len(vals) {
+			v = vals[i]
+		}
+		next := []*luaPath{}
+		for _, q := range ps {
+			next = append(next, ev.store(q, l, v, define)...)
+		}
+		ps = next
+	}
+	return ps
+}
+
+func (ev *luaEval) assignStmt(p *luaPath, s *ast.AssignStmt) []*luaPath {
+	define := s.Tok == token.DEFINE
+	if s.Tok != token.DEFINE && s.Tok != token.ASSIGN {
+		// x op= y
+		op := strings.TrimSuffix(s.Tok.String(), "=")
+		outs := []*luaPath{}
+		for _, r := range ev.exprs(p, []ast.Expr{s.Lhs[0], s.Rhs[0]}) {
+			outs = append(outs, ev.store(r.p, s.Lhs[0], &luaV{op: "bin", s: op, k: []*luaV{r.v[0], r.v[1]}}, false)...)
+		}
+		return outs
+	}
+	if len(s.Rhs) == 1 && len(s.Lhs) > 1 {
+		rhs := s.Rhs[0]
+		for {
+			if pe, ok := rhs.(*ast.ParenExpr); ok {
+				rhs = pe.X
+				continue
+			}
+			break
+		}
+		outs := []*luaPath{}
+		switch v := rhs.(type) {
+		case *ast.TypeAssertExpr:
+			for _, r := range ev.expr(p, v.X) {
+				x := luaFirst(r.v)
+				t := luaType(ev.file(), v.Type)
+				outs = append(outs, ev.storeAll(r.p, s.Lhs, []*luaV{{op: "assert", s: t, k: []*luaV{x}}, {op: "is", s: t, k: []*luaV{x}}}, define)...)
+			}
+			return outs
+		case *ast.IndexExpr:
+			for _, r := range ev.exprs(p, []ast.Expr{v.X, v.Index}) {
+				outs = append(outs, ev.storeAll(r.p, s.Lhs, []*luaV{{op: "idx", k: r.v}, {op: "has", k: r.v}}, define)...)
+			}
+			return outs
+		case *ast.CallExpr:
+			for _, r := range ev.call(p, v, false) {
+				vals := r.v
+				if len(vals) == 1 && len(s.Lhs) > 1 {
+					one := vals[0]
+					vals = nil
+					for i := range s.Lhs {
+						vals = append(vals, &luaV{op: "tup", s: strconv.Itoa(i), k: []*luaV{one}})
+					}
+				}
+				outs = append(outs, ev.storeAll(r.p, s.Lhs, vals, define)...)
+			}
+			return outs
+		}
+		p.poison("multi-assign")
+		return []*luaPath{p}
+	}
+	outs := []*luaPath{}
+	for _, r := range ev.exprs(p, s.Rhs) {
+		outs = append(outs, ev.storeAll(r.p, s.Lhs, r.v, define)...)
+	}
+	return outs
+}
+
+func (ev *luaEval) ifStmt(p *luaPath, s *ast.IfStmt) []*luaPath {
+	return ev.scoped(p, func(p *luaPath) []*luaPath {
+		ps := []*luaPath{p}
+		if s.Init != nil {
+			ps = ev.stmt(p, s.Init)
+		}
+		outs := []*luaPath{}
+		for _, q := range ps {
+			if q.done != "" {
+				outs = append(outs, q)
+				continue
+			}
+			tr, fl := ev.cond(q, s.Cond)
+			for _, t := range tr {
+				outs = append(outs, ev.scoped(t, func(t *luaPath) []*luaPath { return ev.block([]*luaPath{t}, s.Body.List) })...)
+			}
+			for _, f := range fl {
+				if s.Else == nil || f.done != "" {
+					outs = append(outs, f)
+				} else {
+					outs = append(outs, ev.stmt(f, s.Else)...)
+				}
+			}
+		}
+		return outs
+	})
+}
+
+func (ev *luaEval) switchStmt(p *luaPath, s *ast.SwitchStmt) []*luaPath {
+	return ev.scoped(p, func(p *luaPath) []*luaPath {
+		ps := []*luaPath{p}
+		if s.Init != nil {
+			ps = ev.stmt(p, s.Init)
+		}
+		outs := []*luaPath{}
+		for _, q0 := range ps {
+			if q0.done != "" {
+				outs = append(outs, q0)
+				continue
+			}
+			type tagged struct {
+				p   *luaPath
+				tag *luaV
+			}
+			remaining := []tagged{}
+			if s.Tag != nil {
+				for _, r := range ev.expr(q0, s.Tag) {
+					remaining = append(remaining, tagged{r.p, luaFirst(r.v)})
+				}
+			} else {
+				remaining = append(remaining, tagged{q0, nil})
+			}
+			var deflt *ast.CaseClause
+			for _, c := range s.Body.List {
+				cc := c.(*ast.CaseClause)
+				if cc.List == nil {
+					deflt = cc
+					continue
+				}
+				for _, st := range cc.Body {
+					if b, ok := st.(*ast.BranchStmt); ok && b.Tok == token.FALLTHROUGH {
+						q0.poison("fallthrough")
+					}
+				}
+				taken := []*luaPath{}
+				for _, ce := range cc.List {
+					next := []tagged{}
+					for _, r := range remaining {
+						if r.tag == nil {
+							t, f := ev.cond(r.p, ce)
+							taken = append(taken, t...)
+							for _, x := range f {
+								next = append(next, tagged{x, nil})
+							}
+							continue
+						}
+						for _, er := range ev.expr(r.p, ce) {
+							t, f := luaSplit(er.p, &luaV{op: "bin", s: "==", k: []*luaV{r.tag, luaFirst(er.v)}})
+							taken = append(taken, t...)
+							for _, x := range f {
+								next = append(next, tagged{x, r.tag})
+							}
+						}
+					}
+					remaining = next
+				}
+				for _, t := range taken {
+					outs = append(outs, ev.scoped(t, func(t *luaPath) []*luaPath { return ev.block([]*luaPath{t}, cc.Body) })...)
+				}
+			}
+			for _, r := range remaining {
+				if deflt != nil && r.p.done == "" {
+					outs = append(outs, ev.scoped(r.p, func(t *luaPath) []*luaPath { return ev.block([]*luaPath{t}, deflt.Body) })...)
+				} else {
+					outs = append(outs, r.p)
+				}
+			}
+		}
+		for _, o := range outs {
+			if o.done == "break" {
+				o.done = ""
+			}
+		}
+		return outs
+	})
+}
+
+func (ev *luaEval) rangeStmt(p *luaPath, s *ast.RangeStmt) []*luaPath {
+	outs := []*luaPath{}
+	for _, r := range ev.expr(p, s.X) {
+		x := luaFirst(r.v)
+		body := &luaPath{env: append([]luaBind{}, r.p.env...), depth: r.p.depth + 1}
+		if id, ok := s.Key.(*ast.Ident); ok && s.Key != nil {
+			body.define(id.Name, &luaV{op: "key", k: []*luaV{x}})
+		}
+		if id, ok := s.Value.(*ast.Ident); ok && s.Value != nil {
+			body.define(id.Name, &luaV{op: "each", k: []*luaV{x}, st: luaIsFree(x)})
+		}
+		// assignments to variables of the enclosing function inside the body are not tracked
+		outer := map[string]bool{}
+		for _, b := range r.p.env {
+			outer[b.name] = true
+		}
+		bad := false
+		ast.Inspect(s.Body, func(n ast.Node) bool {
+			switch a := n.(type) {
+			case *ast.AssignStmt:
+				if a.Tok != token.DEFINE {
+					for _, l := range a.Lhs {
+						if id, ok := l.(*ast.Ident); ok && outer[id.Name] {
+							bad = true
+						}
+					}
+				}
+			case *ast.IncDecStmt:
+				if id, ok := a.X.(*ast.Ident); ok && outer[id.Name] {
+					bad = true
+				}
+			}
+			return true
+		})
+		bps := ev.block([]*luaPath{body}, s.Body.List)
+		parts := []string{}
+		for _, b := range luaFinish(bps) {
+			parts = append(parts, b.String())
+		}
+		r.p.effs = append(r.p.effs, luaEff{kind: "loop", text: "loop " + x.String() + " { " + strings.Join(parts, " | ") + " }"})
+		if bad {
+			r.p.poison("loop-assigns-outer")
+		}
+		outs = append(outs, r.p)
+	}
+	return outs
+}
+
+func (ev *luaEval) stmt(p *luaPath, s ast.Stmt) []*luaPath {
+	switch v := s.(type) {
+	case *ast.EmptyStmt:
+		return []*luaPath{p}
+	case *ast.ExprStmt:
+		outs := []*luaPath{}
+		for _, r := range ev.expr(p, v.X) {
+			outs = append(outs, r.p)
+		}
+		return outs
+	case *ast.AssignStmt:
+		return ev.assignStmt(p, v)
+	case *ast.IncDecStmt:
+		op := "+"
+		if v.Tok == token.DEC {
+			op = "-"
+		}
+		outs := []*luaPath{}
+		for _, r := range ev.expr(p, v.X) {
+			outs = append(outs, ev.store(r.p, v.X, &luaV{op: "bin", s: op, k: []*luaV{luaFirst(r.v), luaLit("1")}}, false)...)
+		}
+		return outs
+	case *ast.DeclStmt:
+		gd, ok := v.Decl.(*ast.GenDecl)
+		if !ok || gd.Tok == token.TYPE {
+			return []*luaPath{p}
+		}
+		ps := []*luaPath{p}
+		for _, sp := range gd.Specs {
+			vs := sp.(*ast.ValueSpec)
+			next := []*luaPath{}
+			for _, q := range ps {
+				if len(vs.Values) == 0 {
+					for _, id := range vs.Names {
+						q.define(id.Name, &luaV{op: "zero", s: luaType(ev.file(), vs.Type)})
+					}
+					next = append(next, q)
+					continue
+				}
+				for _, r := range ev.exprs(q, vs.Values) {
+					for i, id := range vs.Names {
+						if i < len(r.v) {
+							r.p.define(id.Name, r.v[i])
+						}
+					}
+					next = append(next, r.p)
+				}
+			}
+			ps = next
+		}
+		return ps
+	case *ast.BlockStmt:
+		return ev.scoped(p, func(p *luaPath) []*luaPath { return ev.block([]*luaPath{p}, v.List) })
+	case *ast.IfStmt:
+		return ev.ifStmt(p, v)
+	case *ast.SwitchStmt:
+		return ev.switchStmt(p, v)
+	case *ast.RangeStmt:
+		return ev.rangeStmt(p, v)
+	case *ast.ReturnStmt:
+		if len(v.Results) == 0 {
+			if n := len(ev.named); n > 0 {
+				for _, name := range ev.named[n-1] {
+					x, _ := p.lookup(name)
+					p.ret = append(p.ret, x)
+				}
+			}
+			p.done = "return"
+			return []*luaPath{p}
+		}
+		outs := []*luaPath{}
+		if len(v.Results) == 1 {
+			for _, r := range ev.expr(p, v.Results[0]) {
+				r.p.ret = r.v
+				if r.p.done == "" {
+					r.p.done = "return"
+				}
+				outs = append(outs, r.p)
+			}
+			return outs
+		}
+		for _, r := range ev.exprs(p, v.Results) {
+			r.p.ret = r.v
+			if r.p.done == "" {
+				r.p.done = "return"
+			}
+			outs = append(outs, r.p)
+		}
+		return outs
+	case *ast.DeferStmt:
+		outs := []*luaPath{}
+		for _, r := range ev.call(p, v.Call, true) {
+			outs = append(outs, r.p)
+		}
+		return outs
+	case *ast.BranchStmt:
+		switch v.Tok {
+		case token.BREAK, token.CONTINUE:
+			if v.Label == nil {
+				p.done = v.Tok.String()
+				return []*luaPath{p}
+			}
+		}
+	}
+	p.poison(fmt.Sprintf("%T", s))
+	return []*luaPath{p}
+}
+
+// ---------------------------------------------------------------------------------------------------------------------
+// finished paths
+
+type luaOut struct {
+	atoms []luaAtom
+	conds []string // sorted
+	effs  []luaEff
+	effS  []string
+	ret   string
+	retv  []*luaV
+}
+
+func (o luaOut) String() string {
+	return "[" + strings.Join(o.conds, ", ") + "] |- [" + strings.Join(o.effS, "; ") + "] => " + o.ret
+}
+
+func (o luaOut) key() string { return strings.Join(o.effS, "; ") + " => " + o.ret }
+
+func luaFinish(ps []*luaPath, top ...bool) []luaOut {
+	isTop := len(top) > 0 && top[0]
+	outs := []luaOut{}
+	for _, p := range ps {
+		o := luaOut{atoms: p.atoms, effs: p.effs, retv: p.ret}
+		for _, e := range p.effs {
+			o.effS = append(o.effS, e.String())
+		}
+		switch {
+		case p.done == "return":
+			vs := []string{}
+			for _, v := range p.ret {
+				vs = append(vs, v.String())
+			}
+			o.ret = strings.Join(vs, ", ")
+			if !isTop {
+				o.ret = strings.TrimSpace("return " + o.ret)
+			} else if len(vs) == 0 {
+				o.ret = "-"
+			}
+		case p.done == "":
+			o.ret = "-"
+			if !isTop {
+				o.ret = "next"
+			}
+		case p.done == "continue":
+			o.ret = "next"
+		default:
+			o.ret = p.done
+		}
+		outs = append(outs, o)
+	}
+	// merge paths that differ only in the sign of one condition (an `if` whose branches do nothing that is kept)
+	for changed := true; changed; {
+		changed = false
+	search:
+		for i := 0; i < len(outs); i++ {
+			for j := i + 1; j < len(outs); j++ {
+				if outs[i].key() != outs[j].key() || len(outs[i].atoms) != len(outs[j].atoms) {
+					continue
+				}
+				inJ := map[string]bool{}
+				for _, a := range outs[j].atoms {
+					inJ[a.String()] = true
+				}
+				var onlyI []luaAtom
+				common := []luaAtom{}
+				for _, a := range outs[i].atoms {
+					if inJ[a.String()] {
+						common = append(common, a)
+					} else {
+						onlyI = append(onlyI, a)
+					}
+				}
+				if len(onlyI) == 1 && inJ[luaNormAtom(luaAtom{onlyI[0].v, !onlyI[0].neg}).String()] {
+					outs[i].atoms = common
+					outs = append(outs[:j], outs[j+1:]...)
+					changed = true
+					break search
+				}
+				if len(onlyI) == 0 {
+					outs = append(outs[:j], outs[j+1:]...)
+					changed = true
+					break search
+				}
+			}
+		}
+	}
+	for i := range outs {
+		outs[i].conds = nil
+		for _, a := range outs[i].atoms {
+			outs[i].conds = append(outs[i].conds, a.String())
+		}
+		sort.Strings(outs[i].conds)
+	}
+	sort.SliceStable(outs, func(i, j int) bool { return outs[i].String() < outs[j].String() })
+	return outs
+}
+
+func (pk *luaPkg) analyze(fd *ast.FuncDecl) []luaOut {
+	if fd == nil || fd.Body == nil {
+		return []luaOut{{ret: "?missing"}}
+	}
+	ev := &luaEval{pk: pk, files: []*ast.File{pk.fileOf[fd]}, stack: []*ast.FuncDecl{fd}, recvT: luaRecvBase(fd)}
+	p := &luaPath{}
+	n := 0
+	if fd.Type.Params != nil {
+		for _, fl := range fd.Type.Params.List {
+			n += len(fl.Names)
+		}
+	}
+	args := []*luaV{}
+	for i := 0; i < n; i++ {
+		args = append(args, &luaV{op: "param", s: "$" + strconv.Itoa(i)})
+	}
+	named := ev.bindParams(p, fd, &luaV{op: "param", s: "$recv"}, args)
+	ev.named = [][]string{named}
+	return luaFinish(ev.block([]*luaPath{p}, fd.Body.List), true)
+}
+
+// analyzeLit: a function literal inside outer; outer's parameters are $o0, $o1, …
+func (pk *luaPkg) analyzeLit(lit *ast.FuncLit, outer *ast.FuncDecl) []luaOut {
+	f := pk.fileOf[outer]
+	ev := &luaEval{pk: pk, files: []*ast.File{f}, stack: []*ast.FuncDecl{outer}, recvT: luaRecvBase(outer), named: [][]string{nil}}
+	p := &luaPath{}
+	i := 0
+	if outer.Type.Params != nil {
+		for _, fl := range outer.Type.Params.List {
+			for _, id := range fl.Names {
+				p.define(id.Name, &luaV{op: "param", s: "$o" + strconv.Itoa(i), st: luaIsStateType(f, fl.Type)})
+				i++
+			}
+		}
+	}
+	i = 0
+	if lit.Type.Params != nil {
+		for _, fl := range lit.Type.Params.List {
+			for _, id := range fl.Names {
+				p.define(id.Name, &luaV{op: "param", s: "$" + strconv.Itoa(i), st: luaIsStateType(f, fl.Type)})
+				i++
+			}
+		}
+	}
+	return luaFinish(ev.block([]*luaPath{p}, lit.Body.List), true)
+}
+
+func luaPathsLean(outs []luaOut) string {
+	ps := []string{}
+	for _, o := range outs {
+		ps = append(ps, fmt.Sprintf("{ conds := %s, effects := %s, ret := %s }", strList(o.conds), strList(o.effS), leanStr(o.ret)))
+	}
+	if len(ps) == 0 {
+		return "[]"
+	}
+	return "[\n    " + strings.Join(ps, ",\n    ") + "]"
+}
+
+// ---------------------------------------------------------------------------------------------------------------------
+// facts
+
+type luaListener struct {
+	slot, event, fn   string
+	nret              *int
+	protect, deferPut bool
+	gets, puts        int
+	paths             []luaOut
+}
+
+func luaUnq(s string) string {
+	if u, err := strconv.Unquote(s); err == nil {
+		return u
+	}
+	return s
+}
+
+func luaIsNilIdent(e ast.Expr) bool {
+	id, ok := e.(*ast.Ident)
+	return ok && id.Name == "nil"
+}
+
+// slotOf: `<root>.A.B` with exported A, B  ->  root, "A.B"
+func luaSlotExpr(e ast.Expr) (string, string) {
+	b, ok := e.(*ast.SelectorExpr)
+	if !ok {
+		return "", "?"
+	}
+	a, ok := b.X.(*ast.SelectorExpr)
+	if !ok || !ast.IsExported(a.Sel.Name) || !ast.IsExported(b.Sel.Name) {
+		return "", "?"
+	}
+	root, ok := a.X.(*ast.Ident)
+	if !ok {
+		return "", "?"
+	}
+	return root.Name, a.Sel.Name + "." + b.Sel.Name
+}
+
+// definedFromInbucketLookup: inside fd, the variable `name` is assigned from a package call whose first result is *Inbucket
+func (pk *luaPkg) definedFromInbucketLookup(fd *ast.FuncDecl, name string) bool {
+	found := false
+	ast.Inspect(fd.Body, func(x ast.Node) bool {
+		as, ok := x.(*ast.AssignStmt)
+		if !ok || len(as.Rhs) != 1 || len(as.Lhs) == 0 {
+			return true
+		}
+		id, ok := as.Lhs[0].(*ast.Ident)
+		if !ok || id.Name != name {
+			return true
+		}
+		if ce, ok := as.Rhs[0].(*ast.CallExpr); ok {
+			if fid, ok := ce.Fun.(*ast.Ident); ok {
+				if g := pk.resolveFunc(fid.Name); g != nil {
+					if rs := pk.results(g); len(rs) > 0 && rs[0] == "*Inbucket" {
+						found = true
+					}
 				}
 			}
 		}
 		return true
 	})
-	for i := 0; i+1 < len(l); i++ {
-		if norm(l[i]) == "lval := ls.Get(-1)" && norm(l[i+1]) == "ls.Pop(1)" {
-			f.getTopPop = true
-		}
-	}
-	if n := len(l); n > 0 {
-		f.returnsRes = norm(l[n-1]) == "return result"
-	}
-	return f
+	return found
 }
 
-// assertChain: the types asserted on the way to the success return, and the final (failure) return statement
-func assertChain(fd *ast.FuncDecl) ([]string, string) {
-	types := []string{}
+func luaIsAddListener(ce *ast.CallExpr) bool {
+	se, ok := ce.Fun.(*ast.SelectorExpr)
+	return ok && se.Sel.Name == "AddListener"
+}
+
+func (pk *luaPkg) listenerFacts(slot, event string, reg ast.Expr) luaListener {
+	l := luaListener{slot: slot, event: event, fn: "?"}
+	se, ok := reg.(*ast.SelectorExpr)
+	if !ok {
+		l.paths = []luaOut{{ret: "?listener-not-a-method-value"}}
+		return l
+	}
+	fd := pk.resolveMeth(se.Sel.Name)
 	if fd == nil {
-		return types, ""
+		l.paths = []luaOut{{ret: "?listener-not-found"}}
+		return l
 	}
-	ast.Inspect(fd.Body, func(x ast.Node) bool {
-		if ta, ok := x.(*ast.TypeAssertExpr); ok && ta.Type != nil {
-			types = append(types, norm(ta.Type))
+	l.paths = pk.analyze(fd)
+	fns := map[string]bool{}
+	nrets := map[string]bool{}
+	calls := 0
+	l.protect, l.deferPut = true, true
+	for _, p := range l.paths {
+		gets, puts := 0, 0
+		deferred := false
+		for _, e := range p.effs {
+			if e.v == nil {
+				continue
+			}
+			v := e.v
+			if v.op == "prim" && v.s == "get" {
+				gets++
+			}
+			if v.op == "prim" && v.s == "put" {
+				puts++
+				if e.kind == "defer" && len(v.k) == 1 && v.k[0].String() == "S" {
+					deferred = true
+				}
+			}
+			if v.op == "mcall" && v.k[0].st {
+				if !deferred {
+					l.deferPut = false
+				}
+				if v.s == "PCall" || v.s == "Call" || v.s == "DoString" || v.s == "DoFile" || v.s == "Resume" {
+					l.protect = false
+					calls++
+				}
+			}
+			if v.op == "mcall" && v.s == "CallByParam" && v.k[0].st {
+				calls++
+				prot := false
+				if len(v.k) >= 2 && v.k[1].op == "comp" && v.k[1].s == "gopher-lua.P" {
+					for _, kv := range v.k[1].k {
+						if kv.op != "kv" {
+							continue
+						}
+						x := kv.k[0]
+						switch kv.s {
+						case "Fn":
+							slot := "?"
+							if x.op == "sel" && x.k[0].op == "sel" && strings.HasPrefix(x.k[0].k[0].String(), "fn->*Inbucket(") {
+								slot = x.k[0].s + "." + x.s
+							}
+							fns[slot] = true
+						case "NRet":
+							nrets[x.String()] = true
+						case "Protect":
+							prot = x.op == "lit" && x.s == "true"
+						}
+					}
+				}
+				if !prot {
+					l.protect = false
+				}
+			}
 		}
-		return true
-	})
-	last := ""
-	if n := len(fd.Body.List); n > 0 {
-		last = norm(fd.Body.List[n-1])
-		if i := strings.Index(last, "fmt.Errorf("); i >= 0 {
-			last = last[:i] + "fmt.Errorf(...)"
+		if gets > l.gets {
+			l.gets = gets
+		}
+		if puts > l.puts {
+			l.puts = puts
 		}
 	}
-	return types, last
+	if calls == 0 {
+		l.protect, l.deferPut = false, false
+	}
+	if len(fns) == 1 {
+		for k := range fns {
+			l.fn = k
+		}
+	}
+	if len(nrets) == 1 {
+		for k := range nrets {
+			if n, err := strconv.Atoi(k); err == nil && n >= 0 {
+				l.nret = &n
+			}
+		}
+	}
+	return l
+}
+
+func (pk *luaPkg) listeners() ([]luaListener, []*ast.FuncDecl) {
+	res := []luaListener{}
+	decls := []*ast.FuncDecl{}
+	for _, fd := range pk.all {
+		if fd.Body == nil {
+			continue
+		}
+		handled := map[*ast.CallExpr]bool{}
+		add := func(slot string, ce *ast.CallExpr) {
+			handled[ce] = true
+			event := "?"
+			if se, ok := ce.Fun.(*ast.SelectorExpr); ok {
+				if ev, ok := se.X.(*ast.SelectorExpr); ok && ast.IsExported(ev.Sel.Name) {
+					event = ev.Sel.Name
+				}
+			}
+			if len(ce.Args) != 2 {
+				res = append(res, luaListener{slot: slot, event: event, fn: "?", paths: []luaOut{{ret: "?AddListener-arity"}}})
+				return
+			}
+			res = append(res, pk.listenerFacts(slot, event, ce.Args[1]))
+			if se, ok := ce.Args[1].(*ast.SelectorExpr); ok {
+				if g := pk.resolveMeth(se.Sel.Name); g != nil {
+					decls = append(decls, g)
+				}
+			}
+		}
+		ast.Inspect(fd.Body, func(x ast.Node) bool {
+			is, ok := x.(*ast.IfStmt)
+			if !ok {
+				return true
+			}
+			slot := "?"
+			if be, ok := is.Cond.(*ast.BinaryExpr); ok && be.Op == token.NEQ && is.Init == nil && is.Else == nil {
+				var side ast.Expr
+				if luaIsNilIdent(be.Y) {
+					side = be.X
+				} else if luaIsNilIdent(be.X) {
+					side = be.Y
+				}
+				if side != nil {
+					root, s := luaSlotExpr(side)
+					if s != "?" && pk.definedFromInbucketLookup(fd, root) {
+						slot = s
+					}
+				}
+			}
+			for _, st := range is.Body.List {
+				if es, ok := st.(*ast.ExprStmt); ok {
+					if ce, ok := es.X.(*ast.CallExpr); ok && luaIsAddListener(ce) && !handled[ce] {
+						add(slot, ce)
+					}
+				}
+			}
+			return true
+		})
+		ast.Inspect(fd.Body, func(x ast.Node) bool {
+			if ce, ok := x.(*ast.CallExpr); ok && luaIsAddListener(ce) && !handled[ce] {
+				add("?unguarded", ce)
+			}
+			return true
+		})
+	}
+	sort.SliceStable(res, func(i, j int) bool { return res[i].slot+"|"+res[i].event < res[j].slot+"|"+res[j].event })
+	return res, decls
+}
+
+// reachable: package functions reachable from roots through calls resolved by name
+func (pk *luaPkg) reachable(roots []*ast.FuncDecl) map[*ast.FuncDecl]bool {
+	seen := map[*ast.FuncDecl]bool{}
+	work := append([]*ast.FuncDecl{}, roots...)
+	for len(work) > 0 {
+		fd := work[len(work)-1]
+		work = work[:len(work)-1]
+		if fd == nil || seen[fd] || fd.Body == nil {
+			continue
+		}
+		seen[fd] = true
+		ast.Inspect(fd.Body, func(x ast.Node) bool {
+			if ce, ok := x.(*ast.CallExpr); ok {
+				switch fu := ce.Fun.(type) {
+				case *ast.Ident:
+					work = append(work, pk.funcs[fu.Name])
+				case *ast.SelectorExpr:
+					work = append(work, pk.meths[fu.Sel.Name]...)
+				}
+			}
+			return true
+		})
+	}
+	return seen
+}
+
+// onlyCalledFromRoles: an unexported method of the pool all of whose callers are the pool's get / put / flush methods —
+// a helper whose body is already part of those methods' paths (it is inlined there)
+func (pk *luaPkg) onlyCalledFromRoles(fd *ast.FuncDecl) bool {
+	if luaRecvBase(fd) != pk.poolT || ast.IsExported(fd.Name.Name) {
+		return false
+	}
+	callers, bad := 0, false
+	for _, c := range pk.all {
+		if c.Body == nil || c == fd {
+			continue
+		}
+		calls := false
+		ast.Inspect(c.Body, func(x ast.Node) bool {
+			switch v := x.(type) {
+			case *ast.SelectorExpr:
+				if v.Sel.Name == fd.Name.Name {
+					calls = true
+				}
+			case *ast.Ident:
+				if v.Name == fd.Name.Name {
+					calls = true
+				}
+			}
+			return true
+		})
+		if !calls {
+			continue
+		}
+		callers++
+		r := pk.role[c.Name.Name]
+		if luaRecvBase(c) != pk.poolT || (r != "get" && r != "put" && r != "flush") {
+			bad = true
+		}
+	}
+	return callers > 0 && !bad
+}
+
+func luaPubName(fd *ast.FuncDecl) string {
+	if ast.IsExported(fd.Name.Name) {
+		return fd.Name.Name
+	}
+	return "fn"
+}
+
+// index tables: (key, T, field) of every `case key: <x.(*T)>.field = S.CheckFunction(3)` and (key, field) of every
+// `case key: S.Push(… &<x.(*Inbucket)>.field …)` in the func(*LState) int functions of the package
+func (pk *luaPkg) indexTables() (setters [][3]string, getters [][2]string) {
+	names := []string{}
+	for n := range pk.funcs {
+		names = append(names, n)
+	}
+	sort.Strings(names)
+	for _, n := range names {
+		fd := pk.funcs[n]
+		pt, rt := pk.paramTypes(fd), pk.results(fd)
+		if len(pt) != 1 || pt[0] != "*gopher-lua.LState" || len(rt) != 1 || rt[0] != "int" || fd.Body == nil {
+			continue
+		}
+		if !luaMentionsField(fd.Body, "CheckString") {
+			continue
+		}
+		for _, p := range pk.analyze(fd) {
+			key := ""
+			nkeys := 0
+			for _, a := range p.atoms {
+				v := a.v
+				if a.neg || v.op != "bin" || v.s != "==" || v.k[1].op != "lit" {
+					continue
+				}
+				c := v.k[0]
+				if c.op == "mcall" && c.s == "CheckString" && c.k[0].st && len(c.k) == 2 && c.k[1].String() == "2" {
+					key = luaUnq(v.k[1].s)
+					nkeys++
+				}
+			}
+			if nkeys != 1 {
+				continue
+			}
+			for _, e := range p.effs {
+				if e.kind == "set" && e.v.op == "sel" && e.rhs.op == "mcall" && e.rhs.s == "CheckFunction" && e.rhs.k[0].st && len(e.rhs.k) == 2 && e.rhs.k[1].String() == "3" {
+					t := "?"
+					if b := e.v.k[0]; b.op == "lit" && b.s == "nil" {
+						continue // the path on which the userdata check has raised an argument error
+					}
+					e.v.k[0].walk(func(x *luaV) {
+						if x.op == "assert" {
+							t = strings.TrimPrefix(x.s, "*")
+						}
+					})
+					setters = append(setters, [3]string{key, t, e.v.s})
+				}
+				if e.kind == "call" && e.v.op == "mcall" && e.v.s == "Push" && e.v.k[0].st {
+					e.v.walk(func(x *luaV) {
+						if x.op == "addr" && x.k[0].op == "sel" && ast.IsExported(x.k[0].s) {
+							isIb := false
+							x.k[0].k[0].walk(func(y *luaV) {
+								if y.op == "assert" && y.s == "*Inbucket" {
+									isIb = true
+								}
+							})
+							if isIb {
+								getters = append(getters, [2]string{key, x.k[0].s})
+							}
+						}
+					})
+				}
+			}
+		}
+	}
+	return
+}
+
+func (pk *luaPkg) ownerField(t string) string {
+	st := pk.structs["Inbucket"]
+	if st == nil {
+		return "?"
+	}
+	for _, fl := range st.Fields.List {
+		if luaType(pk.stFile["Inbucket"], fl.Type) == t && len(fl.Names) == 1 {
+			return fl.Names[0].Name
+		}
+	}
+	return "?"
+}
+
+func luaPairs(l [][2]string) string {
+	sort.SliceStable(l, func(i, j int) bool { return l[i][0]+"|"+l[i][1] < l[j][0]+"|"+l[j][1] })
+	p := []string{}
+	for _, x := range l {
+		p = append(p, fmt.Sprintf("(%s, %s)", leanStr(x[0]), leanStr(x[1])))
+	}
+	return "[" + strings.Join(p, ", ") + "]"
 }
 
 func extractLua() {
 	g := gen("Lua")
-	fmt.Fprintf(&g.buf, `structure Handler where
-  goName : String
-  luaName : String         -- argument of prepareInbucketFuncCall (first statement)
-  notOkReturns : Bool      -- second statement: if !ok { return [nil] }
-  deferPut : Bool          -- third statement: defer h.pool.putState(ls)
-  fn : String              -- Fn of the lua.P literal
+	fmt.Fprintf(&g.buf, `/-- one control-flow path of a function after inlining the package's own helpers.
+    conds: what must hold (sorted); effects: the calls / stores that matter, in execution order; ret: what is returned
+    (`+"`-`"+` = nothing, `+"`?…`"+` = a shape the extractor does not understand).
+    Names: $recv / $0 / $1 = receiver and parameters; S = the state handed out by the pool's get; `+"`fn->T(…)`"+` = a helper of
+    the package that is not inlined, named by its result types (`+"`.err`"+` = its error result); `+"`<T>`"+` = the receiver's unexported
+    field of type T (`+"`<free>`"+` = the pool's free list); get / put / new / flush = the pool's methods, found by what they do. -/
+structure Path where
+  conds : List String
+  effects : List String
+  ret : String
+  deriving DecidableEq, Repr
+
+/-- a listener registered with AddListener: the slot tested for non-nil in front of the registration, the event broker,
+    and what the registered method does -/
+structure Listener where
+  slot : String            -- `+"`<inbucket>.A.B != nil`"+` guarding the registration
+  event : String           -- Events.<event>.AddListener
+  fn : String              -- slot passed as Fn of lua.P to CallByParam
   nret : Option Nat
-  protect : Bool
-  errReturnsNil : Bool     -- the err != nil branch of CallByParam ends with return nil
-  getTopPop : Bool         -- lval := ls.Get(-1); ls.Pop(1)
-  lvIsFalse : Bool         -- if lua.LVIsFalse(lval) { return nil }
-  unwrap : String          -- result, err := <unwrap>(lval)
-  returnsResult : Bool     -- last statement: return result
-  gets : Nat               -- direct calls of h.pool.getState in the body
-  puts : Nat               -- calls of h.pool.putState in the body
+  protect : Bool           -- every Lua entry of every path is CallByParam with Protect: true (and there is one)
+  deferPut : Bool          -- on every path `+"`defer put(S)`"+` comes before the first call on S
+  gets : Nat               -- pool gets on a path (max)
+  puts : Nat               -- pool puts on a path (max)
+  paths : List Path
   deriving DecidableEq, Repr
 
 `)
-	lf := parse("pkg/extension/luahost/lua.go")
-	// ---- wireFunctions
-	wired := []string{}
-	if wf := fn(lf, "Host", "wireFunctions"); wf != nil {
-		for _, s := range wf.Body.List {
-			is, ok := s.(*ast.IfStmt)
-			if !ok || is.Init != nil {
-				continue
-			}
-			be, ok := is.Cond.(*ast.BinaryExpr)
-			if !ok || be.Op != token.NEQ || norm(be.Y) != "nil" || !strings.HasPrefix(norm(be.X), "ib.") || len(is.Body.List) != 1 {
-				continue
-			}
-			es, ok := is.Body.List[0].(*ast.ExprStmt)
-			if !ok {
-				wired = append(wired, fmt.Sprintf("(%s, \"?\", \"?\")", leanStr(norm(be.X))))
-				continue
-			}
-			ce, ok := es.X.(*ast.CallExpr)
-			if !ok || len(ce.Args) != 2 || !strings.HasSuffix(norm(ce.Fun), ".AddListener") {
-				wired = append(wired, fmt.Sprintf("(%s, \"?\", \"?\")", leanStr(norm(be.X))))
-				continue
-			}
-			ev := strings.TrimSuffix(strings.TrimPrefix(norm(ce.Fun), "events."), ".AddListener")
-			wired = append(wired, fmt.Sprintf("(%s, %s, %s)", leanStr(norm(be.X)), leanStr(ev), leanStr(strings.TrimPrefix(norm(ce.Args[1]), "h."))))
-		}
+	pk := luaLoad(luaDir)
+	// ---- listeners
+	ls, ldecls := pk.listeners()
+	ll := []string{}
+	for _, l := range ls {
+		ll = append(ll, fmt.Sprintf("{ slot := %s, event := %s, fn := %s, nret := %s, protect := %s, deferPut := %s, gets := %d, puts := %d,\n    paths := %s }",
+			leanStr(l.slot), leanStr(l.event), leanStr(l.fn), optNat(l.nret), luaLeanBool(l.protect), luaLeanBool(l.deferPut), l.gets, l.puts, luaPathsLean(l.paths)))
 	}
-	g.def("wired", "List (String × String × String)", "["+strings.Join(wired, ", ")+"]", "wireFunctions: (function slot tested for non-nil, event broker, listener registered), in source order")
-	// ---- handlers
-	hs := []string{}
-	if lf != nil {
-		for _, d := range lf.Decls {
-			fd, ok := d.(*ast.FuncDecl)
-			if !ok || fd.Recv == nil || !strings.HasPrefix(fd.Name.Name, "handle") {
-				continue
-			}
-			f := handlerFacts(fd)
-			hs = append(hs, fmt.Sprintf("{ goName := %s, luaName := %s, notOkReturns := %s, deferPut := %s, fn := %s, nret := %s, protect := %s, errReturnsNil := %s, getTopPop := %s, lvIsFalse := %s, unwrap := %s, returnsResult := %s, gets := %d, puts := %d }",
-				leanStr(f.goName), leanStr(f.luaName), luaLeanBool(f.notOkReturns), luaLeanBool(f.deferPut), leanStr(f.fn), optNat(f.nret), luaLeanBool(f.protect), luaLeanBool(f.errReturnsNil),
-				luaLeanBool(f.getTopPop), luaLeanBool(f.lvIsFalse), leanStr(f.unwrap), luaLeanBool(f.returnsRes), f.gets, f.puts))
-		}
-	}
-	g.def("handlers", "List Handler", "[\n  "+strings.Join(hs, ",\n  ")+"]", "every method of Host whose name starts with `handle`, in source order")
-	g.def("prepare", "List String", strList(stmtList(fn(lf, "Host", "prepareInbucketFuncCall"))), "statements of prepareInbucketFuncCall (whitespace-normalised)")
-	// ---- calls of CallByParam / PCall anywhere in the package's non-test files that are NOT protected
+	g.def("listeners", "List Listener", "[\n  "+strings.Join(ll, ",\n  ")+"]", "every AddListener call of the package, sorted by slot")
+	// ---- Lua entry points that are not protected
 	unprotected := []string{}
-	for _, rel := range []string{"pkg/extension/luahost/lua.go", "pkg/extension/luahost/pool.go"} {
-		f := parse(rel)
-		if f == nil {
-			unprotected = append(unprotected, "unparsed "+rel)
-			continue
-		}
+	sites := 0
+	for _, f := range pk.files {
 		ast.Inspect(f, func(x ast.Node) bool {
 			ce, ok := x.(*ast.CallExpr)
 			if !ok {
 				return true
 			}
-			name := norm(ce.Fun)
-			if strings.HasSuffix(name, ".CallByParam") {
+			se, ok := ce.Fun.(*ast.SelectorExpr)
+			if !ok {
+				return true
+			}
+			switch se.Sel.Name {
+			case "CallByParam":
+				sites++
 				okp := false
 				if len(ce.Args) > 0 {
 					if cl, ok := ce.Args[0].(*ast.CompositeLit); ok {
 						for _, e := range cl.Elts {
-							if kv, ok := e.(*ast.KeyValueExpr); ok && norm(kv.Key) == "Protect" && norm(kv.Value) == "true" {
-								okp = true
+							if kv, ok := e.(*ast.KeyValueExpr); ok {
+								k, _ := kv.Key.(*ast.Ident)
+								v, _ := kv.Value.(*ast.Ident)
+								if k != nil && v != nil && k.Name == "Protect" && v.Name == "true" {
+									okp = true
+								}
 							}
 						}
 					}
 				}
 				if !okp {
-					unprotected = append(unprotected, rel+": "+norm(ce))
+					unprotected = append(unprotected, "CallByParam")
 				}
-			}
-			if strings.HasSuffix(name, ".Call") || strings.HasSuffix(name, ".DoString") || strings.HasSuffix(name, ".DoFile") {
-				unprotected = append(unprotected, rel+": "+norm(ce))
+			case "Call", "DoString", "DoFile", "Resume":
+				unprotected = append(unprotected, se.Sel.Name)
 			}
 			return true
 		})
 	}
-	g.def("unprotectedCalls", "List String", strList(unprotected), "Lua entry points in lua.go / pool.go that are not protected calls (CallByParam without Protect: true, Call, DoString, DoFile)")
-	// ---- Lua names -> function slots (bind_inbucket.go)
-	bf := parse("pkg/extension/luahost/bind_inbucket.go")
-	names := []string{}
-	for _, p := range [][2]string{{"inbucketBeforeNewIndex", "before"}, {"inbucketAfterNewIndex", "after"}} {
-		fd := fn(bf, "", p[0])
-		if fd == nil {
+	sort.Strings(unprotected)
+	g.def("unprotectedCalls", "List String", strList(unprotected), "Lua entry points anywhere in the package that are not protected calls (CallByParam without a literal Protect: true, Call, DoString, DoFile, Resume)")
+	g.def("callByParamSites", "Nat", strconv.Itoa(sites), "number of CallByParam call sites in the package")
+	// ---- Lua names
+	setters, getters := pk.indexTables()
+	names := [][2]string{}
+	for _, s := range setters {
+		owner := pk.ownerField(s[1])
+		prefix := "?"
+		for _, gt := range getters {
+			if gt[1] == owner {
+				prefix = gt[0]
+			}
+		}
+		names = append(names, [2]string{prefix + "." + s[0], owner + "." + s[2]})
+	}
+	g.def("luaNames", "List (String × String)", luaPairs(names), "(Lua name, slot of the Inbucket struct): `inbucket.<k1>.<k2> = f` stores f (CheckFunction(3)) in that slot — from the __index / __newindex functions")
+	g.def("inbucketIndex", "List (String × String)", luaPairs(getters), "__index of the `inbucket` global: (key, field of Inbucket whose address is wrapped and pushed)")
+	// ---- unwrap functions: func(x) (*event.T, error)
+	uw := []string{}
+	fnames := []string{}
+	for n := range pk.funcs {
+		fnames = append(fnames, n)
+	}
+	sort.Strings(fnames)
+	type luaUw struct {
+		t     string
+		paths []luaOut
+	}
+	uws := []luaUw{}
+	for _, n := range fnames {
+		fd := pk.funcs[n]
+		rs, ps := pk.results(fd), pk.paramTypes(fd)
+		if len(rs) == 2 && rs[1] == "error" && strings.HasPrefix(rs[0], "*event.") && len(ps) == 1 && ps[0] == "gopher-lua.LValue" {
+			uws = append(uws, luaUw{rs[0], pk.analyze(fd)})
+		}
+	}
+	sort.SliceStable(uws, func(i, j int) bool { return uws[i].t < uws[j].t })
+	for _, u := range uws {
+		uw = append(uw, fmt.Sprintf("(%s, %s)", leanStr(u.t), luaPathsLean(u.paths)))
+	}
+	g.def("unwraps", "List (String × List Path)", "[\n  "+strings.Join(uw, ",\n  ")+"]", "the functions func(lua.LValue) (*event.T, error): (T, paths)")
+	// ---- smtp.allow / defer / deny constructor
+	ctor := []luaOut{{ret: "?not-found"}}
+	nctor := 0
+	for _, fd := range pk.all {
+		if fd.Body == nil {
 			continue
 		}
 		ast.Inspect(fd.Body, func(x ast.Node) bool {
-			cc, ok := x.(*ast.CaseClause)
-			if !ok || len(cc.List) != 1 || len(cc.Body) != 1 {
-				return true
-			}
-			lit, ok := cc.List[0].(*ast.BasicLit)
+			lit, ok := x.(*ast.FuncLit)
 			if !ok {
 				return true
 			}
-			key, _ := strconv.Unquote(lit.Value)
-			if as, ok := cc.Body[0].(*ast.AssignStmt); ok && len(as.Lhs) == 1 && norm(as.Rhs[0]) == "ls.CheckFunction(3)" {
-				names = append(names, fmt.Sprintf("(%s, %s)", leanStr(p[1]+"."+key), leanStr("ib."+strings.Title(p[1])+"."+strings.TrimPrefix(norm(as.Lhs[0]), "m."))))
-			}
-			return true
-		})
-	}
-	g.def("luaNames", "List (String × String)", "["+strings.Join(names, ", ")+"]", "__newindex of inbucket.before / inbucket.after: (Lua name, function slot of the Inbucket struct assigned with CheckFunction)")
-	idx := []string{}
-	if fd := fn(bf, "", "inbucketIndex"); fd != nil {
-		ast.Inspect(fd.Body, func(x ast.Node) bool {
-			cc, ok := x.(*ast.CaseClause)
-			if ok && len(cc.List) == 1 && len(cc.Body) == 1 {
-				idx = append(idx, norm(cc.List[0])+" => "+norm(cc.Body[0]))
-			}
-			return true
-		})
-	}
-	g.def("inbucketIndex", "List String", strList(idx), "cases of the __index of the `inbucket` global")
-	// ---- unwrap functions
-	for _, p := range [][3]string{{"pkg/extension/luahost/bind_smtpresponse.go", "unwrapSMTPResponse", "unwrapResponse"}, {"pkg/extension/luahost/bind_inboundmessage.go", "unwrapInboundMessage", "unwrapInbound"}} {
-		types, last := assertChain(fn(parse(p[0]), "", p[1]))
-		g.def(p[2], "List String × String", "("+strList(types)+", "+leanStr(last)+")", p[1]+": types asserted (in order), and the final statement (failure result)")
-	}
-	// ---- smtp.deny defaults
-	sf := parse("pkg/extension/luahost/bind_smtpresponse.go")
-	deny := []string{}
-	if fd := fn(sf, "", "newSMTPResponse"); fd != nil {
-		ast.Inspect(fd.Body, func(x ast.Node) bool {
-			if is, ok := x.(*ast.IfStmt); ok && norm(is.Cond) == "action == event.ActionDeny" {
-				for _, s := range is.Body.List {
-					deny = append(deny, norm(s))
-				}
-			}
-			return true
-		})
-	}
-	g.def("denyDefaults", "List String", strList(deny), "newSMTPResponse: statements executed only for ActionDeny")
-	// ---- pool.go
-	pf := parse("pkg/extension/luahost/pool.go")
-	g.def("getState", "List String", strList(stmtList(fn(pf, "statePool", "getState"))), "statements of statePool.getState")
-	g.def("putState", "List String", strList(stmtList(fn(pf, "statePool", "putState"))), "statements of statePool.putState")
-	g.def("createChannel", "List String", strList(stmtList(fn(pf, "statePool", "createChannel"))), "statements of statePool.createChannel")
-	// every mention of lp.states in pool.go outside those three functions would be an unmodelled access
-	others := []string{}
-	if pf != nil {
-		for _, d := range pf.Decls {
-			fd, ok := d.(*ast.FuncDecl)
-			if !ok || fd.Body == nil {
-				continue
-			}
-			if fd.Name.Name == "getState" || fd.Name.Name == "putState" || fd.Name.Name == "createChannel" {
-				continue
-			}
-			if strings.Contains(norm(fd.Body), ".states") {
-				others = append(others, fd.Name.Name)
-			}
-		}
-	}
-	g.def("otherStatesUsers", "List String", strList(others), "other functions of pool.go that touch the free list")
-	// getState / putState call sites of lua.go outside the handlers
-	sites := []string{}
-	if lf != nil {
-		for _, d := range lf.Decls {
-			fd, ok := d.(*ast.FuncDecl)
-			if !ok || fd.Body == nil || strings.HasPrefix(fd.Name.Name, "handle") {
-				continue
-			}
-			gts, pts := 0, 0
-			ast.Inspect(fd.Body, func(x ast.Node) bool {
-				if ce, ok := x.(*ast.CallExpr); ok {
-					if strings.HasSuffix(norm(ce.Fun), "pool.getState") {
-						gts++
-					}
-					if strings.HasSuffix(norm(ce.Fun), "pool.putState") {
-						pts++
-					}
+			has := false
+			ast.Inspect(lit.Body, func(y ast.Node) bool {
+				if cl, ok := y.(*ast.CompositeLit); ok && luaType(pk.fileOf[fd], cl.Type) == "event.SMTPResponse" {
+					has = true
 				}
 				return true
 			})
-			if gts+pts > 0 {
-				sites = append(sites, fmt.Sprintf("(%s, %d, %d)", leanStr(fd.Name.Name), gts, pts))
+			if has {
+				nctor++
+				ctor = pk.analyzeLit(lit, fd)
+			}
+			return true
+		})
+	}
+	if nctor > 1 {
+		ctor = []luaOut{{ret: "?ambiguous"}}
+	}
+	g.def("smtpCtor", "List Path", luaPathsLean(ctor), "the closure that builds smtp.allow / defer / deny results ($o0 = the action it was made for)")
+	var denyCode *int
+	var denyMsg *string
+	okDeny := true
+	for _, p := range ctor {
+		isDeny := false
+		for _, c := range p.conds {
+			if c == "($o0 == event.ActionDeny)" {
+				isDeny = true
 			}
 		}
+		for _, e := range p.effs {
+			if e.kind != "set" || e.v.op != "sel" || (e.v.s != "ErrorCode" && e.v.s != "ErrorMsg") {
+				continue
+			}
+			r := e.rhs
+			if !isDeny || r.op != "mcall" || !r.k[0].st || len(r.k) != 3 || r.k[2].op != "lit" {
+				okDeny = false
+				continue
+			}
+			if e.v.s == "ErrorCode" && r.s == "OptInt" && r.k[1].String() == "1" {
+				if n, err := strconv.Atoi(r.k[2].s); err == nil && n >= 0 && denyCode == nil {
+					denyCode = &n
+					continue
+				}
+			}
+			if e.v.s == "ErrorMsg" && r.s == "OptString" && r.k[1].String() == "2" && denyMsg == nil {
+				s := luaUnq(r.k[2].s)
+				denyMsg = &s
+				continue
+			}
+			okDeny = false
+		}
 	}
-	g.def("poolSitesOutsideHandlers", "List (String × Nat × Nat)", "["+strings.Join(sites, ", ")+"]", "functions of lua.go other than the handlers that call getState / putState: (name, gets, puts)")
+	if !okDeny {
+		denyCode, denyMsg = nil, nil
+	}
+	g.def("denyCode", "Option Nat", optNat(denyCode), "n of `.ErrorCode = S.OptInt(1, n)`, executed only when the action is ActionDeny")
+	g.def("denyMsg", "Option String", optStr(denyMsg), "s of `.ErrorMsg = S.OptString(2, s)`, executed only when the action is ActionDeny")
+	// ---- pool
+	for _, role := range []string{"get", "put", "flush"} {
+		ds := pk.roleDecl(role)
+		paths := []luaOut{{ret: fmt.Sprintf("?%d-methods-with-this-role", len(ds))}}
+		if len(ds) == 1 {
+			paths = pk.analyze(ds[0])
+		}
+		g.def("pool"+strings.Title(role), "List Path", luaPathsLean(paths), "the pool method with role `"+role+"`")
+	}
+	others := []string{}
+	for _, fd := range pk.all {
+		r := ""
+		if luaRecvBase(fd) == pk.poolT {
+			r = pk.role[fd.Name.Name]
+		}
+		if fd.Body != nil && pk.freeF != "" && (r != "get" && r != "put" && r != "flush") && luaMentionsField(fd.Body, pk.freeF) && !pk.onlyCalledFromRoles(fd) {
+			others = append(others, luaPubName(fd))
+		}
+	}
+	if pk.freeF == "" {
+		others = append(others, "?no-pool")
+	}
+	g.def("otherStatesUsers", "List String", strList(others), "other functions of the package (verif_* files excluded) that touch the free list")
+	reach := pk.reachable(ldecls)
+	sitesOut := []string{}
+	for _, fd := range pk.all {
+		if fd.Body == nil || reach[fd] || (luaRecvBase(fd) == pk.poolT && pk.role[fd.Name.Name] != "") {
+			continue
+		}
+		gts, pts := 0, 0
+		ast.Inspect(fd.Body, func(x ast.Node) bool {
+			if ce, ok := x.(*ast.CallExpr); ok {
+				if se, ok := ce.Fun.(*ast.SelectorExpr); ok {
+					switch pk.role[se.Sel.Name] {
+					case "get":
+						gts++
+					case "put":
+						pts++
+					}
+				}
+			}
+			return true
+		})
+		if gts+pts > 0 {
+			sitesOut = append(sitesOut, fmt.Sprintf("(%s, %d, %d)", leanStr(luaPubName(fd)), gts, pts))
+		}
+	}
+	sort.Strings(sitesOut)
+	g.def("poolSitesOutsideListeners", "List (String × Nat × Nat)", "["+strings.Join(sitesOut, ", ")+"]", "functions not reachable from a listener that call the pool's get / put: (exported name or `fn`, gets, puts)")
 	// ---- EventBroker.Emit
-	var emitFd *ast.FuncDecl
-	if bfile := parse("pkg/extension/broker.go"); bfile != nil {
-		for _, d := range bfile.Decls {
-			if fd, ok := d.(*ast.FuncDecl); ok && fd.Name.Name == "Emit" && fd.Recv != nil && strings.Contains(norm(fd.Recv.List[0].Type), "EventBroker[") {
-				emitFd = fd
-			}
+	bk := luaLoad("pkg/extension", "broker.go")
+	emit := []luaOut{{ret: "?not-found"}}
+	for _, fd := range bk.meths["Emit"] {
+		if luaRecvBase(fd) == "EventBroker" {
+			emit = bk.analyze(fd)
 		}
 	}
-	g.def("emit", "List String", strList(stmtList(emitFd)), "statements of EventBroker.Emit")
+	g.def("emit", "List Path", luaPathsLean(emit), "EventBroker.Emit")
 }
